@@ -563,15 +563,14 @@ mod v_wire_roundtrip {
                 Ok(Icmpv6Repr::EchoReply { ident: i, seq_no: s, data: d }) => {
                     assert!(REPLY && i == ident && s == seq_no, "prop:c06_parse_of_emit_is_identity");
                     same_bytes!(d, data, DL, "prop:c06_parse_of_emit_is_identity");
-                    kani::cover!(i == 0xffff, "echo reply parsed back");
                 }
                 Ok(Icmpv6Repr::EchoRequest { ident: i, seq_no: s, data: d }) => {
                     assert!(!REPLY && i == ident && s == seq_no, "prop:c06_parse_of_emit_is_identity");
                     same_bytes!(d, data, DL, "prop:c06_parse_of_emit_is_identity");
-                    kani::cover!(i == 0xffff, "echo request parsed back");
                 }
                 _ => assert!(false, "prop:c06_parse_of_emit_is_identity"),
             }
+            kani::cover!(ident == 0xffff && b1[7] == 1, "echo with the largest identifier emitted and parsed back");
         }};
     }
 
@@ -700,25 +699,1487 @@ mod v_wire_roundtrip {
         bytes[0] = 128;
         let (src, dst) = (any_v6(), any_v6());
         if let Ok(p) = Icmpv6Packet::new_checked(&bytes[..]) {
-            if let Ok(r) = Icmpv6Repr::parse(&src, &dst, &p, &caps()) {
-                let mut b = [0u8; 16];
-                let n = r.buffer_len();
-                assert!(n == 16, "prop:c06_reparse_of_parsed_is_identity");
-                r.emit(&src, &dst, &mut Icmpv6Packet::new_unchecked(&mut b[..]), &caps());
-                match (r, Icmpv6Repr::parse(&src, &dst, &Icmpv6Packet::new_unchecked(&b[..]), &caps())) {
-                    (Icmpv6Repr::EchoRequest { ident, seq_no, data }, Ok(Icmpv6Repr::EchoRequest { ident: i, seq_no: s, data: d })) => {
-                        assert!(ident == i && seq_no == s, "prop:c06_reparse_of_parsed_is_identity");
-                        same_bytes!(d, data, 8, "prop:c06_reparse_of_parsed_is_identity");
-                        kani::cover!(ident == 7, "echo request re-parsed");
+            match Icmpv6Repr::parse(&src, &dst, &p, &caps()) {
+                Ok(Icmpv6Repr::EchoRequest { ident, seq_no, data }) => {
+                    // rebuilt in place: CBMC loses the discriminant of the large enum when it is moved out of the Result
+                    let r = Icmpv6Repr::EchoRequest { ident, seq_no, data };
+                    let mut b = [0u8; 16];
+                    assert!(r.buffer_len() == 16, "prop:c06_reparse_of_parsed_is_identity");
+                    r.emit(&src, &dst, &mut Icmpv6Packet::new_unchecked(&mut b[..]), &caps());
+                    match Icmpv6Repr::parse(&src, &dst, &Icmpv6Packet::new_unchecked(&b[..]), &caps()) {
+                        Ok(Icmpv6Repr::EchoRequest { ident: i, seq_no: s, data: d }) => {
+                            assert!(ident == i && seq_no == s, "prop:c06_reparse_of_parsed_is_identity");
+                            same_bytes!(d, data, 8, "prop:c06_reparse_of_parsed_is_identity");
+                            kani::cover!(ident == 7, "echo request re-parsed");
+                        }
+                        _ => assert!(false, "prop:c06_reparse_of_parsed_is_identity"),
                     }
-                    (Icmpv6Repr::EchoReply { ident, seq_no, data }, Ok(Icmpv6Repr::EchoReply { ident: i, seq_no: s, data: d })) => {
-                        assert!(ident == i && seq_no == s, "prop:c06_reparse_of_parsed_is_identity");
-                        same_bytes!(d, data, 8, "prop:c06_reparse_of_parsed_is_identity");
-                    }
-                    _ => assert!(false, "prop:c06_reparse_of_parsed_is_identity"),
                 }
+                Ok(_) => assert!(false, "prop:c06_reparse_of_parsed_is_identity"),
+                Err(_) => {}
             }
         }
+    }
+
+    // ------------------------------------------------------------------ NDISC (through wire::ndisc::Repr on an ICMPv6 packet)
+    // NdiscRepr::emit leaves the checksum (bytes 2..4) to Icmpv6Repr::emit, so those two bytes are excluded here;
+    // rt_icmpv6_ndisc_ns_wrapped goes through Icmpv6Repr and checks every byte.
+    // Link-layer addresses: 6 bytes (Ethernet) and 8 bytes (IEEE 802.15.4 extended) — the lengths the crate produces.
+
+    fn ll_eth() -> RawHardwareAddress {
+        RawHardwareAddress::from(EthernetAddress(kani::any()))
+    }
+    fn ll_ieee() -> RawHardwareAddress {
+        RawHardwareAddress::from(Ieee802154Address::Extended(kani::any()))
+    }
+    fn any_router_flags() -> NdiscRouterFlags {
+        NdiscRouterFlags::from_bits_truncate(kani::any())
+    }
+    fn any_prefix_info() -> NdiscPrefixInformation {
+        // lifetimes are 32-bit second counts on the wire
+        NdiscPrefixInformation {
+            prefix_len: kani::any(),
+            flags: NdiscPrefixInfoFlags::from_bits_truncate(kani::any()),
+            valid_lifetime: Duration::from_secs(kani::any::<u32>() as u64),
+            preferred_lifetime: Duration::from_secs(kani::any::<u32>() as u64),
+            prefix: any_v6(),
+        }
+    }
+
+    /// emit `$repr` (an NdiscRepr of declared length `$n`) twice, compare, parse back; yields the parse result
+    macro_rules! ndisc_tail {
+        ($repr:expr, $n:expr, $k:ident => $keep:expr) => {{
+            let repr: NdiscRepr = $repr;
+            let n = repr.buffer_len();
+            assert!(n == $n, "prop:c06_parse_of_emit_is_identity");
+            let mut b1 = [0u8; $n];
+            let mut b2: [u8; $n] = kani::any();
+            repr.emit(&mut Icmpv6Packet::new_unchecked(&mut b1[..]));
+            repr.emit(&mut Icmpv6Packet::new_unchecked(&mut b2[..]));
+            indep!(b1, b2, $n, $k => ($k < 2 || $k >= 4) && $keep);
+            let p = Icmpv6Packet::new_checked(&b1[..]);
+            assert!(p.is_ok(), "prop:c06_emitted_packet_passes_new_checked");
+            let p = p.unwrap();
+            let back = NdiscRepr::parse(&p);
+            assert!(back == Ok(repr), "prop:c06_parse_of_emit_is_identity");
+            kani::cover!(back.is_ok() && b1[$n - 1] != 0, "parsed back, last byte non-zero");
+        }};
+    }
+
+    // @harness props=C06 cfg=KW tier=t to=300 mem=4 unwind=20 opts=nomem covers=1 funcs=wire::ndisc::Repr::emit;wire::ndisc::Repr::parse;wire::ndisc::Repr::buffer_len bounds=router_solicit;_ethernet_lladdr
+    #[kani::proof]
+    pub(crate) fn rt_ndisc_rs_eth() {
+        ndisc_tail!(NdiscRepr::RouterSolicit { lladdr: Some(ll_eth()) }, 16, k => true);
+    }
+
+    // @harness props=C06 cfg=KW tier=t to=300 mem=4 unwind=20 opts=nomem covers=1 funcs=wire::ndisc::Repr::emit;wire::ndisc::Repr::parse bounds=router_solicit;_802.15.4_lladdr;_option_padding_excluded_from_stale_check
+    #[kani::proof]
+    pub(crate) fn rt_ndisc_rs_ieee() {
+        ndisc_tail!(NdiscRepr::RouterSolicit { lladdr: Some(ll_ieee()) }, 24, k => k < 18);
+    }
+
+    // @harness props=C06 cfg=KW tier=t to=300 mem=4 unwind=20 opts=nomem covers=1 funcs=wire::ndisc::Repr::emit;wire::ndisc::Repr::parse bounds=router_solicit;_no_option
+    #[kani::proof]
+    pub(crate) fn rt_ndisc_rs_none() {
+        let repr = NdiscRepr::RouterSolicit { lladdr: None };
+        let mut b1 = [0u8; 8];
+        let mut b2: [u8; 8] = kani::any();
+        assert!(repr.buffer_len() == 8, "prop:c06_parse_of_emit_is_identity");
+        repr.emit(&mut Icmpv6Packet::new_unchecked(&mut b1[..]));
+        repr.emit(&mut Icmpv6Packet::new_unchecked(&mut b2[..]));
+        indep!(b1, b2, 8, k => k < 2 || k >= 4);
+        let p = Icmpv6Packet::new_checked(&b1[..]);
+        assert!(p.is_ok(), "prop:c06_emitted_packet_passes_new_checked");
+        let back = NdiscRepr::parse(&p.unwrap());
+        assert!(back == Ok(repr), "prop:c06_parse_of_emit_is_identity");
+        kani::cover!(back.is_ok(), "parsed back");
+    }
+
+    // @harness props=C06 cfg=KW tier=q to=300 mem=4 unwind=20 opts=nomem covers=1 funcs=wire::icmpv6::Repr::emit;wire::icmpv6::Repr::parse;wire::ndisc::Repr::emit;wire::ndisc::Repr::parse;wire::ndiscoption::Repr::emit;wire::ndiscoption::Repr::parse bounds=neighbor_solicit_through_Icmpv6Repr;_ethernet_lladdr;_every_byte_compared
+    #[kani::proof]
+    pub(crate) fn rt_icmpv6_ndisc_ns_wrapped() {
+        let (src, dst) = (any_v6(), any_v6());
+        let inner = NdiscRepr::NeighborSolicit { target_addr: any_v6(), lladdr: Some(ll_eth()) };
+        let repr = Icmpv6Repr::Ndisc(inner);
+        assert!(repr.buffer_len() == 32, "prop:c06_parse_of_emit_is_identity");
+        let mut b1 = [0u8; 32];
+        let mut b2: [u8; 32] = kani::any();
+        repr.emit(&src, &dst, &mut Icmpv6Packet::new_unchecked(&mut b1[..]), &caps());
+        repr.emit(&src, &dst, &mut Icmpv6Packet::new_unchecked(&mut b2[..]), &caps());
+        indep!(b1, b2, 32);
+        let p = Icmpv6Packet::new_checked(&b1[..]);
+        assert!(p.is_ok(), "prop:c06_emitted_packet_passes_new_checked");
+        match Icmpv6Repr::parse(&src, &dst, &p.unwrap(), &caps()) {
+            Ok(Icmpv6Repr::Ndisc(back)) => {
+                assert!(back == inner, "prop:c06_parse_of_emit_is_identity");
+                kani::cover!(true, "neighbor solicitation parsed back");
+            }
+            _ => assert!(false, "prop:c06_parse_of_emit_is_identity"),
+        }
+    }
+
+    // @harness props=C06 cfg=KW tier=t to=300 mem=4 unwind=20 opts=nomem covers=1 funcs=wire::ndisc::Repr::emit;wire::ndisc::Repr::parse bounds=neighbor_solicit;_802.15.4_lladdr;_option_padding_excluded_from_stale_check
+    #[kani::proof]
+    pub(crate) fn rt_ndisc_ns_ieee() {
+        ndisc_tail!(NdiscRepr::NeighborSolicit { target_addr: any_v6(), lladdr: Some(ll_ieee()) }, 40, k => k < 34);
+    }
+
+    // @harness props=C06 cfg=KW tier=q to=300 mem=4 unwind=20 opts=nomem covers=1 funcs=wire::ndisc::Repr::emit;wire::ndisc::Repr::parse;wire::ndisc::Repr::buffer_len bounds=neighbor_advert;_ethernet_lladdr;_all_flag_values
+    #[kani::proof]
+    pub(crate) fn rt_ndisc_na_eth() {
+        ndisc_tail!(NdiscRepr::NeighborAdvert { flags: NdiscNeighborFlags::from_bits_truncate(kani::any()), target_addr: any_v6(), lladdr: Some(ll_eth()) }, 32, k => true);
+    }
+
+    // @harness props=C06 cfg=KW tier=t to=300 mem=4 unwind=20 opts=nomem covers=1 funcs=wire::ndisc::Repr::emit;wire::ndisc::Repr::parse bounds=neighbor_advert;_no_option
+    #[kani::proof]
+    pub(crate) fn rt_ndisc_na_none() {
+        ndisc_tail!(NdiscRepr::NeighborAdvert { flags: NdiscNeighborFlags::from_bits_truncate(kani::any()), target_addr: any_v6(), lladdr: None }, 24, k => true);
+    }
+
+    /// Router advertisement header fields in their wire ranges: lifetime = 16-bit seconds, timers = 32-bit milliseconds
+    macro_rules! any_ra {
+        ($lladdr:expr, $mtu:expr, $prefix:expr) => {
+            NdiscRepr::RouterAdvert {
+                hop_limit: kani::any(),
+                flags: any_router_flags(),
+                router_lifetime: Duration::from_secs(kani::any::<u16>() as u64),
+                reachable_time: Duration::from_millis(kani::any::<u32>() as u64),
+                retrans_time: Duration::from_millis(kani::any::<u32>() as u64),
+                lladdr: $lladdr,
+                mtu: $mtu,
+                prefix_info: $prefix,
+            }
+        };
+    }
+
+    // @harness props=C06 cfg=KW tier=t to=300 mem=4 unwind=20 opts=nomem covers=1 funcs=wire::ndisc::Repr::emit;wire::ndisc::Repr::parse bounds=router_advert;_no_option
+    #[kani::proof]
+    pub(crate) fn rt_ndisc_ra_none() {
+        ndisc_tail!(any_ra!(None, None, None), 16, k => true);
+    }
+
+    // @harness props=C06 cfg=KW tier=q to=600 mem=4 unwind=20 opts=nomem covers=1 funcs=wire::ndisc::Repr::emit;wire::ndisc::Repr::parse;wire::ndisc::Repr::buffer_len;wire::ndiscoption::Repr::emit;wire::ndiscoption::Repr::parse bounds=router_advert;_ethernet_lladdr+MTU+prefix_information;_MTU_reserved_bytes_excluded_from_stale_check
+    #[kani::proof]
+    pub(crate) fn rt_ndisc_ra_all() {
+        ndisc_tail!(any_ra!(Some(ll_eth()), Some(kani::any()), Some(any_prefix_info())), 64, k => k < 26 || k >= 28);
+    }
+
+    // @harness props=C06 cfg=KW tier=t to=600 mem=4 unwind=20 opts=nomem covers=1 funcs=wire::ndisc::Repr::emit;wire::ndisc::Repr::parse bounds=router_advert;_802.15.4_lladdr+prefix_information;_lladdr_padding_excluded_from_stale_check
+    #[kani::proof]
+    pub(crate) fn rt_ndisc_ra_ieee_prefix() {
+        ndisc_tail!(any_ra!(Some(ll_ieee()), None, Some(any_prefix_info())), 64, k => k < 26 || k >= 32);
+    }
+
+    // @harness props=C06 cfg=KW tier=t to=300 mem=4 unwind=20 opts=nomem covers=1 funcs=wire::ndisc::Repr::emit;wire::ndisc::Repr::parse bounds=router_advert;_MTU_only;_MTU_reserved_bytes_excluded_from_stale_check
+    #[kani::proof]
+    pub(crate) fn rt_ndisc_ra_mtu() {
+        ndisc_tail!(any_ra!(None, Some(kani::any()), None), 24, k => k < 18 || k >= 20);
+    }
+
+    // @harness props=C06 cfg=KW tier=t to=300 mem=4 unwind=20 opts=nomem covers=1 funcs=wire::ndisc::Repr::emit;wire::ndisc::Repr::parse bounds=redirect;_no_option
+    #[kani::proof]
+    pub(crate) fn rt_ndisc_redirect_none() {
+        ndisc_tail!(NdiscRepr::Redirect { target_addr: any_v6(), dest_addr: any_v6(), lladdr: None, redirected_hdr: None }, 40, k => true);
+    }
+
+    // @harness props=C06 cfg=KW tier=q to=600 mem=6 unwind=20 opts=nomem,fs128 covers=1 funcs=wire::ndisc::Repr::emit;wire::ndisc::Repr::parse;wire::ndisc::Repr::buffer_len;wire::ndiscoption::Repr::emit;wire::ndiscoption::Repr::parse bounds=redirect;_ethernet_lladdr+redirected_header_with_8_payload_bytes
+    #[kani::proof]
+    pub(crate) fn rt_ndisc_redirect_full() {
+        let data: [u8; 8] = kani::any();
+        // the redirected header describes exactly the bytes that follow it (emit copies data into the
+        // embedded packet's payload(), whose length is header.payload_len)
+        let mut header = any_ipv6_repr(8);
+        header.payload_len = 8;
+        ndisc_tail!(
+            NdiscRepr::Redirect { target_addr: any_v6(), dest_addr: any_v6(), lladdr: Some(ll_eth()), redirected_hdr: Some(NdiscRedirectedHeader { header, data: &data[..] }) },
+            104,
+            k => true
+        );
+    }
+
+    // @harness props=C06 cfg=KW tier=t to=600 mem=6 unwind=20 opts=nomem,fs128 covers=1 funcs=wire::ndisc::Repr::emit;wire::ndisc::Repr::parse bounds=redirect;_redirected_header_with_16_payload_bytes_only
+    #[kani::proof]
+    pub(crate) fn rt_ndisc_redirect_hdr() {
+        let data: [u8; 16] = kani::any();
+        let mut header = any_ipv6_repr(16);
+        header.payload_len = 16;
+        ndisc_tail!(
+            NdiscRepr::Redirect { target_addr: any_v6(), dest_addr: any_v6(), lladdr: None, redirected_hdr: Some(NdiscRedirectedHeader { header, data: &data[..] }) },
+            104,
+            k => true
+        );
+    }
+
+    // ------------------------------------------------------------------ NDISC options on their own
+
+    macro_rules! ndiscopt_tail {
+        ($repr:expr, $n:expr, $k:ident => $keep:expr) => {{
+            let repr: NdiscOptionRepr = $repr;
+            let n = repr.buffer_len();
+            assert!(n == $n, "prop:c06_parse_of_emit_is_identity");
+            let mut b1 = [0u8; $n];
+            let mut b2: [u8; $n] = kani::any();
+            repr.emit(&mut NdiscOption::new_unchecked(&mut b1[..]));
+            repr.emit(&mut NdiscOption::new_unchecked(&mut b2[..]));
+            indep!(b1, b2, $n, $k => $keep);
+            let p = NdiscOption::new_checked(&b1[..]);
+            assert!(p.is_ok(), "prop:c06_emitted_packet_passes_new_checked");
+            let p = p.unwrap();
+            let back = NdiscOptionRepr::parse(&p);
+            assert!(back == Ok(repr), "prop:c06_parse_of_emit_is_identity");
+            kani::cover!(back.is_ok() && b1[$n - 1] != 0, "parsed back, last byte non-zero");
+        }};
+    }
+
+    // @harness props=C06 cfg=KW tier=q to=300 mem=4 unwind=20 opts=nomem covers=1 funcs=wire::ndiscoption::Repr::emit;wire::ndiscoption::Repr::parse;wire::ndiscoption::Repr::buffer_len bounds=source_lladdr;_ethernet
+    #[kani::proof]
+    pub(crate) fn rt_ndiscopt_sll_eth() {
+        ndiscopt_tail!(NdiscOptionRepr::SourceLinkLayerAddr(ll_eth()), 8, k => true);
+    }
+
+    // @harness props=C06 cfg=KW tier=t to=300 mem=4 unwind=20 opts=nomem covers=1 funcs=wire::ndiscoption::Repr::emit;wire::ndiscoption::Repr::parse bounds=target_lladdr;_802.15.4_extended;_padding_excluded_from_stale_check
+    #[kani::proof]
+    pub(crate) fn rt_ndiscopt_tll_ieee() {
+        ndiscopt_tail!(NdiscOptionRepr::TargetLinkLayerAddr(ll_ieee()), 16, k => k < 10);
+    }
+
+    // @harness props=C06 cfg=KW tier=q to=300 mem=4 unwind=20 opts=nomem covers=1 funcs=wire::ndiscoption::Repr::emit;wire::ndiscoption::Repr::parse;wire::ndiscoption::Repr::buffer_len bounds=prefix_information;_all_field_values
+    #[kani::proof]
+    pub(crate) fn rt_ndiscopt_prefix() {
+        ndiscopt_tail!(NdiscOptionRepr::PrefixInformation(any_prefix_info()), 32, k => true);
+    }
+
+    // @harness props=C06 cfg=KW tier=t to=300 mem=4 unwind=20 opts=nomem covers=1 funcs=wire::ndiscoption::Repr::emit;wire::ndiscoption::Repr::parse bounds=MTU;_reserved_bytes_excluded_from_stale_check
+    #[kani::proof]
+    pub(crate) fn rt_ndiscopt_mtu() {
+        ndiscopt_tail!(NdiscOptionRepr::Mtu(kani::any()), 8, k => k < 2 || k >= 4);
+    }
+
+    // @harness props=C06 cfg=KW tier=t to=300 mem=4 unwind=20 opts=nomem covers=1 funcs=wire::ndiscoption::Repr::emit;wire::ndiscoption::Repr::parse bounds=redirected_header;_8_payload_bytes
+    #[kani::proof]
+    pub(crate) fn rt_ndiscopt_redirected() {
+        let data: [u8; 8] = kani::any();
+        let mut header = any_ipv6_repr(8);
+        header.payload_len = 8;
+        ndiscopt_tail!(NdiscOptionRepr::RedirectedHeader(NdiscRedirectedHeader { header, data: &data[..] }), 56, k => true);
+    }
+
+    // @harness props=C06 cfg=KW tier=t to=300 mem=4 unwind=20 opts=nomem covers=1 funcs=wire::ndiscoption::Repr::emit;wire::ndiscoption::Repr::parse bounds=unknown_option_type;_length_2_(14_data_bytes)
+    #[kani::proof]
+    pub(crate) fn rt_ndiscopt_unknown() {
+        let data: [u8; 14] = kani::any();
+        let type_: u8 = kani::any();
+        // an Unknown option carries a type the crate does not know, and `length` (units of 8 octets) describes data
+        kani::assume(matches!(NdiscOptionType::from(type_), NdiscOptionType::Unknown(_)));
+        ndiscopt_tail!(NdiscOptionRepr::Unknown { type_, length: 2, data: &data[..] }, 16, k => true);
+    }
+
+    // 8-byte link-layer address: the option is 16 bytes, emit writes 10 and leaves the 6 padding bytes
+    // @harness props=C06 cfg=KW tier=q kind=finding to=300 mem=4 unwind=20 opts=nomem covers=1 funcs=wire::ndiscoption::Repr::emit bounds=lladdr_option_with_802.15.4_address;_bytes_10..16
+    #[kani::proof]
+    pub(crate) fn finding_ndiscopt_lladdr_padding_stale() {
+        let repr = NdiscOptionRepr::SourceLinkLayerAddr(ll_ieee());
+        let mut b1 = [0u8; 16];
+        let mut b2: [u8; 16] = kani::any();
+        repr.emit(&mut NdiscOption::new_unchecked(&mut b1[..]));
+        repr.emit(&mut NdiscOption::new_unchecked(&mut b2[..]));
+        kani::cover!(true, "emitted");
+        let k = 10 + any_lt(6);
+        assert!(b1[k] == b2[k], "prop:c06_emit_independent_of_prior_buffer_contents");
+    }
+
+    // MTU option: the two reserved bytes are never written
+    // @harness props=C06 cfg=KW tier=q kind=finding to=300 mem=4 unwind=20 opts=nomem covers=1 funcs=wire::ndiscoption::Repr::emit bounds=MTU_option;_bytes_2..4
+    #[kani::proof]
+    pub(crate) fn finding_ndiscopt_mtu_reserved_stale() {
+        let repr = NdiscOptionRepr::Mtu(kani::any());
+        let mut b1 = [0u8; 8];
+        let mut b2: [u8; 8] = kani::any();
+        repr.emit(&mut NdiscOption::new_unchecked(&mut b1[..]));
+        repr.emit(&mut NdiscOption::new_unchecked(&mut b2[..]));
+        kani::cover!(true, "emitted");
+        let k = 2 + any_lt(2);
+        assert!(b1[k] == b2[k], "prop:c06_emit_independent_of_prior_buffer_contents");
+    }
+
+    // Redirected header whose length is not a multiple of 8: the padding after the quoted packet is never written
+    // @harness props=C06 cfg=KW tier=q kind=finding to=300 mem=4 unwind=20 opts=nomem covers=1 funcs=wire::ndiscoption::Repr::emit bounds=redirected_header_with_4_payload_bytes;_bytes_52..56
+    #[kani::proof]
+    pub(crate) fn finding_ndiscopt_redirected_padding_stale() {
+        let data: [u8; 4] = kani::any();
+        let mut header = any_ipv6_repr(4);
+        header.payload_len = 4;
+        let repr = NdiscOptionRepr::RedirectedHeader(NdiscRedirectedHeader { header, data: &data[..] });
+        assert!(repr.buffer_len() == 56, "prop:c06_parse_of_emit_is_identity");
+        let mut b1 = [0u8; 56];
+        let mut b2: [u8; 56] = kani::any();
+        repr.emit(&mut NdiscOption::new_unchecked(&mut b1[..]));
+        repr.emit(&mut NdiscOption::new_unchecked(&mut b2[..]));
+        kani::cover!(true, "emitted");
+        let k = 52 + any_lt(4);
+        assert!(b1[k] == b2[k], "prop:c06_emit_independent_of_prior_buffer_contents");
+    }
+
+    // ------------------------------------------------------------------ MLD (through wire::mld::Repr on an ICMPv6 packet; checksum bytes 2..4 belong to Icmpv6Repr::emit)
+
+    // @harness props=C06 cfg=KW tier=q to=300 mem=4 unwind=20 opts=nomem covers=1 funcs=wire::mld::Repr::emit;wire::mld::Repr::parse;wire::mld::Repr::buffer_len bounds=query;_one_16-byte_source_address;_qrv_0..=7
+    #[kani::proof]
+    pub(crate) fn rt_mld_query() {
+        let data: [u8; 16] = kani::any();
+        let qrv: u8 = kani::any();
+        // documented by set_qrv's assertion: a 3-bit field
+        kani::assume(qrv < 8);
+        let repr = MldRepr::Query { max_resp_code: kani::any(), mcast_addr: any_v6(), s_flag: kani::any(), qrv, qqic: kani::any(), num_srcs: kani::any(), data: &data[..] };
+        assert!(repr.buffer_len() == 44, "prop:c06_parse_of_emit_is_identity");
+        let mut b1 = [0u8; 44];
+        let mut b2: [u8; 44] = kani::any();
+        repr.emit(&mut Icmpv6Packet::new_unchecked(&mut b1[..]));
+        repr.emit(&mut Icmpv6Packet::new_unchecked(&mut b2[..]));
+        indep!(b1, b2, 44, k => k < 2 || k >= 4);
+        let p = Icmpv6Packet::new_checked(&b1[..]);
+        assert!(p.is_ok(), "prop:c06_emitted_packet_passes_new_checked");
+        let p = p.unwrap();
+        let back = MldRepr::parse(&p);
+        assert!(back == Ok(repr), "prop:c06_parse_of_emit_is_identity");
+        kani::cover!(matches!(back, Ok(MldRepr::Query { s_flag: true, qrv: 7, .. })), "query with S flag and QRV 7");
+    }
+
+    // @harness props=C06 cfg=KW tier=t to=300 mem=4 unwind=24 opts=nomem covers=1 funcs=wire::mld::Repr::emit;wire::mld::Repr::parse bounds=report_with_raw_record_bytes;_20_bytes
+    #[kani::proof]
+    pub(crate) fn rt_mld_report() {
+        let data: [u8; 20] = kani::any();
+        let repr = MldRepr::Report { nr_mcast_addr_rcrds: kani::any(), data: &data[..] };
+        assert!(repr.buffer_len() == 28, "prop:c06_parse_of_emit_is_identity");
+        let mut b1 = [0u8; 28];
+        let mut b2: [u8; 28] = kani::any();
+        repr.emit(&mut Icmpv6Packet::new_unchecked(&mut b1[..]));
+        repr.emit(&mut Icmpv6Packet::new_unchecked(&mut b2[..]));
+        indep!(b1, b2, 28, k => k < 2 || k >= 4);
+        let p = Icmpv6Packet::new_checked(&b1[..]);
+        assert!(p.is_ok(), "prop:c06_emitted_packet_passes_new_checked");
+        let p = p.unwrap();
+        let back = MldRepr::parse(&p);
+        assert!(back == Ok(repr), "prop:c06_parse_of_emit_is_identity");
+        kani::cover!(matches!(back, Ok(MldRepr::Report { nr_mcast_addr_rcrds: 1, .. })), "report parsed back");
+    }
+
+    fn any_mld_record<'a>() -> MldAddressRecordRepr<'a> {
+        let mcast_addr = any_v6();
+        // documented by set_mcast_addr's assertion
+        kani::assume(mcast_addr.is_multicast());
+        // source lists / auxiliary data are not emitted by AddressRecordRepr (buffer_len is the fixed 20 bytes):
+        // records are generated the way AddressRecordRepr::new builds them, with the counters symbolic
+        MldAddressRecordRepr { record_type: MldRecordType::from(kani::any::<u8>()), aux_data_len: kani::any(), num_srcs: kani::any(), mcast_addr, payload: &[] }
+    }
+
+    // ReportRecordReprs is an emit-only form (parse yields Report); its buffer_len() covers the 8-byte header only and
+    // callers add the records' lengths (Interface does), so the declared length here is buffer_len() + 20 per record.
+    // @harness props=C06 cfg=KW tier=q to=300 mem=4 unwind=24 opts=nomem covers=1 funcs=wire::mld::Repr::emit;wire::mld::Repr::parse;wire::mld::AddressRecordRepr::emit;wire::mld::AddressRecordRepr::parse bounds=report_built_from_2_address_records
+    #[kani::proof]
+    pub(crate) fn rt_mld_report_records() {
+        let records = [any_mld_record(), any_mld_record()];
+        let repr = MldRepr::ReportRecordReprs(&records[..]);
+        let n = repr.buffer_len() + records[0].buffer_len() + records[1].buffer_len();
+        assert!(n == 48, "prop:c06_parse_of_emit_is_identity");
+        let mut b1 = [0u8; 48];
+        let mut b2: [u8; 48] = kani::any();
+        repr.emit(&mut Icmpv6Packet::new_unchecked(&mut b1[..]));
+        repr.emit(&mut Icmpv6Packet::new_unchecked(&mut b2[..]));
+        indep!(b1, b2, 48, k => k < 2 || k >= 4);
+        let p = Icmpv6Packet::new_checked(&b1[..]);
+        assert!(p.is_ok(), "prop:c06_emitted_packet_passes_new_checked");
+        let p = p.unwrap();
+        match MldRepr::parse(&p) {
+            Ok(MldRepr::Report { nr_mcast_addr_rcrds, data }) => {
+                assert!(nr_mcast_addr_rcrds == 2 && data.len() == 40, "prop:c06_parse_of_emit_is_identity");
+                let second: bool = kani::any();
+                let (off, want) = if second { (20, records[1]) } else { (0, records[0]) };
+                let rec = MldAddressRecord::new_checked(&data[off..off + 20]);
+                assert!(rec.is_ok(), "prop:c06_emitted_packet_passes_new_checked");
+                let got = MldAddressRecordRepr::parse(&rec.unwrap());
+                assert!(got == Ok(want), "prop:c06_parse_of_emit_is_identity");
+                kani::cover!(second && got.is_ok(), "second record parsed back");
+            }
+            _ => assert!(false, "prop:c06_parse_of_emit_is_identity"),
+        }
+    }
+
+    // MldRepr::ReportRecordReprs: buffer_len() ignores the records, emit writes them => emit panics on a
+    // buffer of exactly buffer_len() bytes as soon as there is one record
+    // @harness props=C06 cfg=KW tier=q kind=finding to=300 mem=4 unwind=24 opts=nomem covers=1 funcs=wire::mld::Repr::emit;wire::mld::Repr::buffer_len bounds=report_built_from_1_address_record;_buffer_of_buffer_len()_bytes
+    #[kani::proof]
+    pub(crate) fn finding_mld_report_records_buffer_len() {
+        let records = [any_mld_record()];
+        let repr = MldRepr::ReportRecordReprs(&records[..]);
+        let n = repr.buffer_len();
+        kani::cover!(n == 8, "declared length is the header only");
+        let mut b1 = [0u8; 28];
+        // "prop:c06_emit_does_not_panic_on_declared_length": the obligation is the absence of a panic inside emit
+        repr.emit(&mut Icmpv6Packet::new_unchecked(&mut b1[..n]));
+    }
+
+    // @harness props=C06 cfg=KW tier=t to=300 mem=4 unwind=20 opts=nomem covers=1 funcs=wire::icmpv6::Repr::emit;wire::icmpv6::Repr::parse;wire::mld::Repr::emit;wire::mld::Repr::parse bounds=query_without_sources_through_Icmpv6Repr;_every_byte_compared
+    #[kani::proof]
+    pub(crate) fn rt_icmpv6_mld_query_wrapped() {
+        let (src, dst) = (any_v6(), any_v6());
+        let qrv: u8 = kani::any();
+        kani::assume(qrv < 8);
+        let inner = MldRepr::Query { max_resp_code: kani::any(), mcast_addr: any_v6(), s_flag: kani::any(), qrv, qqic: kani::any(), num_srcs: kani::any(), data: &[] };
+        let repr = Icmpv6Repr::Mld(inner);
+        assert!(repr.buffer_len() == 28, "prop:c06_parse_of_emit_is_identity");
+        let mut b1 = [0u8; 28];
+        let mut b2: [u8; 28] = kani::any();
+        repr.emit(&src, &dst, &mut Icmpv6Packet::new_unchecked(&mut b1[..]), &caps());
+        repr.emit(&src, &dst, &mut Icmpv6Packet::new_unchecked(&mut b2[..]), &caps());
+        indep!(b1, b2, 28);
+        let p = Icmpv6Packet::new_checked(&b1[..]);
+        assert!(p.is_ok(), "prop:c06_emitted_packet_passes_new_checked");
+        match Icmpv6Repr::parse(&src, &dst, &p.unwrap(), &caps()) {
+            Ok(Icmpv6Repr::Mld(back)) => {
+                assert!(back == inner, "prop:c06_parse_of_emit_is_identity");
+                kani::cover!(true, "query parsed back");
+            }
+            _ => assert!(false, "prop:c06_parse_of_emit_is_identity"),
+        }
+    }
+
+    // ------------------------------------------------------------------ IPv6 extension headers and options
+
+    // Ipv6ExtHeaderRepr::emit writes the two fixed bytes (header_len() == 2); the body is written by the specific
+    // header Repr through payload_mut(), which the harness does with `data` as Interface does.
+    macro_rules! ipv6_ext_header_rt {
+        ($length:expr) => {{
+            const L: usize = $length;
+            let data: [u8; L * 8 + 6] = kani::any();
+            let repr = Ipv6ExtHeaderRepr { next_header: any_proto(), length: L as u8, data: &data[..] };
+            assert!(repr.header_len() == 2, "prop:c06_parse_of_emit_is_identity");
+            let mut b1 = [0u8; L * 8 + 8];
+            let mut b2: [u8; L * 8 + 8] = kani::any();
+            repr.emit(&mut Ipv6ExtHeader::new_unchecked(&mut b1[..]));
+            repr.emit(&mut Ipv6ExtHeader::new_unchecked(&mut b2[..]));
+            indep!(b1, b2, 2);
+            Ipv6ExtHeader::new_unchecked(&mut b1[..]).payload_mut().copy_from_slice(&data[..]);
+            let h = Ipv6ExtHeader::new_checked(&b1[..]);
+            assert!(h.is_ok(), "prop:c06_emitted_packet_passes_new_checked");
+            let h = h.unwrap();
+            match Ipv6ExtHeaderRepr::parse(&h) {
+                Ok(back) => {
+                    assert!(back.next_header == repr.next_header && back.length == repr.length, "prop:c06_parse_of_emit_is_identity");
+                    same_bytes!(back.data, data, L * 8 + 6, "prop:c06_parse_of_emit_is_identity");
+                    kani::cover!(back.next_header == IpProtocol::Icmpv6, "header followed by ICMPv6");
+                }
+                Err(_) => assert!(false, "prop:c06_parse_of_emit_is_identity"),
+            }
+        }};
+    }
+
+    // @harness props=C06 cfg=KW tier=q to=300 mem=4 unwind=20 opts=nomem covers=1 funcs=wire::ipv6ext_header::Repr::emit;wire::ipv6ext_header::Repr::parse;wire::ipv6ext_header::Repr::header_len bounds=length_0_(8-byte_header)
+    #[kani::proof]
+    pub(crate) fn rt_ipv6_ext_header() {
+        ipv6_ext_header_rt!(0);
+    }
+
+    // @harness props=C06 cfg=KW tier=t to=300 mem=4 unwind=20 opts=nomem covers=1 funcs=wire::ipv6ext_header::Repr::emit;wire::ipv6ext_header::Repr::parse bounds=length_1_(16-byte_header)
+    #[kani::proof]
+    pub(crate) fn rt_ipv6_ext_header_16() {
+        ipv6_ext_header_rt!(1);
+    }
+
+    /// an option type the crate has no variant for (Type::Rpl is parsed as Unknown without proto-rpl)
+    fn any_unknown_opt_type() -> Ipv6OptionType {
+        let t = Ipv6OptionType::from(kani::any::<u8>());
+        kani::assume(!matches!(t, Ipv6OptionType::Pad1 | Ipv6OptionType::PadN | Ipv6OptionType::RouterAlert));
+        t
+    }
+
+    // @harness props=C06 cfg=KW tier=q to=300 mem=4 unwind=12 opts=nomem covers=2 funcs=wire::ipv6option::Repr::emit;wire::ipv6option::Repr::parse;wire::ipv6option::Repr::buffer_len bounds=Pad1;_PadN_0..=4;_RouterAlert_any_value
+    #[kani::proof]
+    pub(crate) fn rt_ipv6_option_small() {
+        let which: u8 = kani::any();
+        let padn = any_le(4) as u8;
+        let repr = match which {
+            0 => Ipv6OptionRepr::Pad1,
+            1 => Ipv6OptionRepr::PadN(padn),
+            _ => Ipv6OptionRepr::RouterAlert(Ipv6OptionRouterAlert::from(kani::any::<u16>())),
+        };
+        let n = repr.buffer_len();
+        let mut b1 = [0u8; 6];
+        let mut b2: [u8; 6] = kani::any();
+        repr.emit(&mut Ipv6Option::new_unchecked(&mut b1[..n]));
+        repr.emit(&mut Ipv6Option::new_unchecked(&mut b2[..n]));
+        indep!(b1, b2, n);
+        let o = Ipv6Option::new_checked(&b1[..n]);
+        assert!(o.is_ok(), "prop:c06_emitted_packet_passes_new_checked");
+        let back = Ipv6OptionRepr::parse(&o.unwrap());
+        assert!(back == Ok(repr), "prop:c06_parse_of_emit_is_identity");
+        kani::cover!(matches!(back, Ok(Ipv6OptionRepr::PadN(4))), "PadN(4)");
+        kani::cover!(matches!(back, Ok(Ipv6OptionRepr::RouterAlert(Ipv6OptionRouterAlert::Unknown(_)))), "router alert with an unassigned value");
+    }
+
+    // @harness props=C06 cfg=KW tier=t to=300 mem=4 unwind=12 opts=nomem covers=1 funcs=wire::ipv6option::Repr::emit;wire::ipv6option::Repr::parse bounds=Unknown_option_with_4_data_bytes
+    #[kani::proof]
+    pub(crate) fn rt_ipv6_option_unknown() {
+        let data: [u8; 4] = kani::any();
+        // `length` is the number of data bytes
+        let repr = Ipv6OptionRepr::Unknown { type_: any_unknown_opt_type(), length: 4, data: &data[..] };
+        assert!(repr.buffer_len() == 6, "prop:c06_parse_of_emit_is_identity");
+        let mut b1 = [0u8; 6];
+        let mut b2: [u8; 6] = kani::any();
+        repr.emit(&mut Ipv6Option::new_unchecked(&mut b1[..]));
+        repr.emit(&mut Ipv6Option::new_unchecked(&mut b2[..]));
+        indep!(b1, b2, 6);
+        let o = Ipv6Option::new_checked(&b1[..]);
+        assert!(o.is_ok(), "prop:c06_emitted_packet_passes_new_checked");
+        let back = Ipv6OptionRepr::parse(&o.unwrap());
+        assert!(back == Ok(repr), "prop:c06_parse_of_emit_is_identity");
+        kani::cover!(matches!(back, Ok(Ipv6OptionRepr::Unknown { type_: Ipv6OptionType::Rpl, .. })), "RPL option kept as Unknown");
+    }
+
+    // @harness props=C06 cfg=KW tier=q to=300 mem=4 unwind=12 opts=nomem covers=1 funcs=wire::ipv6hbh::Repr::emit;wire::ipv6hbh::Repr::parse;wire::ipv6hbh::Repr::buffer_len bounds=RouterAlert+PadN(0)_(the_MLDv2_report_header)
+    #[kani::proof]
+    pub(crate) fn rt_ipv6_hbh_mld() {
+        let mut options = heapless::Vec::new();
+        let ra = Ipv6OptionRepr::RouterAlert(Ipv6OptionRouterAlert::from(kani::any::<u16>()));
+        options.push(ra).unwrap();
+        options.push(Ipv6OptionRepr::PadN(0)).unwrap();
+        let repr = Ipv6HopByHopRepr { options };
+        assert!(repr.buffer_len() == 6, "prop:c06_parse_of_emit_is_identity");
+        let mut b1 = [0u8; 6];
+        let mut b2: [u8; 6] = kani::any();
+        repr.emit(&mut Ipv6HopByHopHeader::new_unchecked(&mut b1[..]));
+        repr.emit(&mut Ipv6HopByHopHeader::new_unchecked(&mut b2[..]));
+        indep!(b1, b2, 6);
+        let h = Ipv6HopByHopHeader::new_checked(&b1[..]);
+        assert!(h.is_ok(), "prop:c06_emitted_packet_passes_new_checked");
+        let h = h.unwrap();
+        match Ipv6HopByHopRepr::parse(&h) {
+            Ok(back) => {
+                assert!(back.options.len() == 2 && back.options[0] == ra && back.options[1] == Ipv6OptionRepr::PadN(0), "prop:c06_parse_of_emit_is_identity");
+                kani::cover!(true, "two options parsed back");
+            }
+            Err(_) => assert!(false, "prop:c06_parse_of_emit_is_identity"),
+        }
+    }
+
+    // @harness props=C06 cfg=KW tier=q to=600 mem=4 unwind=12 opts=nomem covers=1 funcs=wire::ipv6hbh::Repr::emit;wire::ipv6hbh::Repr::parse;wire::ipv6hbh::Repr::buffer_len;wire::ipv6option::Repr::emit;wire::ipv6option::Repr::parse bounds=4_options_(the_configured_maximum):_Pad1;_PadN(4);_RouterAlert;_Unknown_with_4_data_bytes
+    #[kani::proof]
+    pub(crate) fn rt_ipv6_hbh_max() {
+        let data: [u8; 4] = kani::any();
+        let mut options = heapless::Vec::new();
+        let ra = Ipv6OptionRepr::RouterAlert(Ipv6OptionRouterAlert::from(kani::any::<u16>()));
+        let unk = Ipv6OptionRepr::Unknown { type_: any_unknown_opt_type(), length: 4, data: &data[..] };
+        options.push(Ipv6OptionRepr::Pad1).unwrap();
+        options.push(Ipv6OptionRepr::PadN(4)).unwrap();
+        options.push(ra).unwrap();
+        options.push(unk).unwrap();
+        let repr = Ipv6HopByHopRepr { options };
+        assert!(repr.buffer_len() == 17, "prop:c06_parse_of_emit_is_identity");
+        let mut b1 = [0u8; 17];
+        let mut b2: [u8; 17] = kani::any();
+        repr.emit(&mut Ipv6HopByHopHeader::new_unchecked(&mut b1[..]));
+        repr.emit(&mut Ipv6HopByHopHeader::new_unchecked(&mut b2[..]));
+        indep!(b1, b2, 17);
+        let h = Ipv6HopByHopHeader::new_checked(&b1[..]);
+        assert!(h.is_ok(), "prop:c06_emitted_packet_passes_new_checked");
+        let h = h.unwrap();
+        match Ipv6HopByHopRepr::parse(&h) {
+            Ok(back) => {
+                assert!(back.options.len() == 4, "prop:c06_parse_of_emit_is_identity");
+                assert!(back.options[0] == Ipv6OptionRepr::Pad1 && back.options[1] == Ipv6OptionRepr::PadN(4), "prop:c06_parse_of_emit_is_identity");
+                assert!(back.options[2] == ra && back.options[3] == unk, "prop:c06_parse_of_emit_is_identity");
+                kani::cover!(true, "four options parsed back");
+            }
+            Err(_) => assert!(false, "prop:c06_parse_of_emit_is_identity"),
+        }
+    }
+
+    // @harness props=C06 cfg=KW tier=q to=300 mem=4 unwind=20 opts=nomem covers=1 funcs=wire::ipv6routing::Repr::emit;wire::ipv6routing::Repr::parse;wire::ipv6routing::Repr::buffer_len bounds=Type2;_all_field_values
+    #[kani::proof]
+    pub(crate) fn rt_ipv6_routing_type2() {
+        let repr = Ipv6RoutingRepr::Type2 { segments_left: kani::any(), home_address: any_v6() };
+        assert!(repr.buffer_len() == 22, "prop:c06_parse_of_emit_is_identity");
+        let mut b1 = [0u8; 22];
+        let mut b2: [u8; 22] = kani::any();
+        repr.emit(&mut Ipv6RoutingHeader::new_unchecked(&mut b1[..]));
+        repr.emit(&mut Ipv6RoutingHeader::new_unchecked(&mut b2[..]));
+        indep!(b1, b2, 22);
+        let h = Ipv6RoutingHeader::new_checked(&b1[..]);
+        assert!(h.is_ok(), "prop:c06_emitted_packet_passes_new_checked");
+        let h = h.unwrap();
+        let back = Ipv6RoutingRepr::parse(&h);
+        assert!(back == Ok(repr), "prop:c06_parse_of_emit_is_identity");
+        kani::cover!(matches!(back, Ok(Ipv6RoutingRepr::Type2 { segments_left: 1, .. })), "one segment left");
+    }
+
+    // @harness props=C06 cfg=KW tier=t to=300 mem=4 unwind=20 opts=nomem covers=1 funcs=wire::ipv6routing::Repr::emit;wire::ipv6routing::Repr::parse bounds=Rpl_source_route;_16_address_bytes;_4-bit_cmpr_and_pad_fields
+    #[kani::proof]
+    pub(crate) fn rt_ipv6_routing_rpl() {
+        let addresses: [u8; 16] = kani::any();
+        let (cmpr_i, cmpr_e, pad): (u8, u8, u8) = (kani::any(), kani::any(), kani::any());
+        // RFC 6554: CmprI, CmprE and Pad are 4-bit fields
+        kani::assume(cmpr_i < 16 && cmpr_e < 16 && pad < 16);
+        let repr = Ipv6RoutingRepr::Rpl { segments_left: kani::any(), cmpr_i, cmpr_e, pad, addresses: &addresses[..] };
+        assert!(repr.buffer_len() == 22, "prop:c06_parse_of_emit_is_identity");
+        let mut b1 = [0u8; 22];
+        let mut b2: [u8; 22] = kani::any();
+        repr.emit(&mut Ipv6RoutingHeader::new_unchecked(&mut b1[..]));
+        repr.emit(&mut Ipv6RoutingHeader::new_unchecked(&mut b2[..]));
+        indep!(b1, b2, 22);
+        let h = Ipv6RoutingHeader::new_checked(&b1[..]);
+        assert!(h.is_ok(), "prop:c06_emitted_packet_passes_new_checked");
+        let h = h.unwrap();
+        let back = Ipv6RoutingRepr::parse(&h);
+        assert!(back == Ok(repr), "prop:c06_parse_of_emit_is_identity");
+        kani::cover!(matches!(back, Ok(Ipv6RoutingRepr::Rpl { cmpr_i: 15, cmpr_e: 14, pad: 5, .. })), "compressed source route");
+    }
+
+    // @harness props=C06 cfg=KW tier=q to=300 mem=4 unwind=8 opts=nomem covers=1 funcs=wire::ipv6fragment::Repr::emit;wire::ipv6fragment::Repr::parse;wire::ipv6fragment::Repr::buffer_len bounds=13-bit_offset;_all_other_field_values
+    #[kani::proof]
+    pub(crate) fn rt_ipv6_fragment() {
+        let frag_offset: u16 = kani::any();
+        // the fragment offset is a 13-bit field (in 8-octet units)
+        kani::assume(frag_offset < (1 << 13));
+        let repr = Ipv6FragmentRepr { frag_offset, more_frags: kani::any(), ident: kani::any() };
+        assert!(repr.buffer_len() == 6, "prop:c06_parse_of_emit_is_identity");
+        let mut b1 = [0u8; 6];
+        let mut b2: [u8; 6] = kani::any();
+        repr.emit(&mut Ipv6FragmentHeader::new_unchecked(&mut b1[..]));
+        repr.emit(&mut Ipv6FragmentHeader::new_unchecked(&mut b2[..]));
+        indep!(b1, b2, 6);
+        let h = Ipv6FragmentHeader::new_checked(&b1[..]);
+        assert!(h.is_ok(), "prop:c06_emitted_packet_passes_new_checked");
+        let back = Ipv6FragmentRepr::parse(&h.unwrap());
+        assert!(back == Ok(repr), "prop:c06_parse_of_emit_is_identity");
+        kani::cover!(matches!(back, Ok(Ipv6FragmentRepr { frag_offset: 0x1fff, more_frags: true, .. })), "largest offset with M flag");
+    }
+
+
+    // ------------------------------------------------------------------ TCP
+
+    const fn tcp_hlen(mss: bool, ws: bool, sackperm: bool, nsack: usize, ts: bool) -> usize {
+        let mut l = 20;
+        if mss { l += 4; }
+        if ws { l += 3; }
+        if sackperm { l += 2; }
+        if nsack > 0 { l += 2 + 8 * nsack; }
+        if ts { l += 10; }
+        (l + 3) / 4 * 4
+    }
+
+    /// One option shape per instantiation; every field value symbolic.  Documented validity of a TcpRepr:
+    /// ports non-zero (parse: "Source and destination ports must be present"), window_scale <= 14 (RFC 1323, parse
+    /// clamps), SACK ranges only on segments that carry an ACK and not SACK-permitted (emit's condition), ranges
+    /// filled from the front (emit compacts them), options fit the 40 option bytes.
+    macro_rules! tcp_rt {
+        (mss=$mss:expr, ws=$ws:expr, sackperm=$sp:expr, sack=$ns:expr, ts=$ts:expr, pl=$pl:expr) => {{
+            const PL: usize = $pl;
+            const H: usize = tcp_hlen($mss, $ws, $sp, $ns, $ts);
+            const N: usize = H + PL;
+            let payload: [u8; PL] = kani::any();
+            let control = match kani::any::<u8>() {
+                0 => TcpControl::None,
+                1 => TcpControl::Psh,
+                2 => TcpControl::Syn,
+                3 => TcpControl::Fin,
+                _ => TcpControl::Rst,
+            };
+            let src_port: u16 = kani::any();
+            let dst_port: u16 = kani::any();
+            kani::assume(src_port != 0 && dst_port != 0);
+            let wsv: u8 = kani::any();
+            kani::assume(wsv <= 14);
+            let ack_number = if $ns > 0 || kani::any() { Some(TcpSeqNumber(kani::any())) } else { None };
+            let sack_ranges = [
+                if $ns >= 1 { Some((kani::any::<u32>(), kani::any::<u32>())) } else { None },
+                if $ns >= 2 { Some((kani::any::<u32>(), kani::any::<u32>())) } else { None },
+                if $ns >= 3 { Some((kani::any::<u32>(), kani::any::<u32>())) } else { None },
+            ];
+            let repr = TcpRepr {
+                src_port,
+                dst_port,
+                control,
+                seq_number: TcpSeqNumber(kani::any()),
+                ack_number,
+                window_len: kani::any(),
+                window_scale: if $ws { Some(wsv) } else { None },
+                max_seg_size: if $mss { Some(kani::any()) } else { None },
+                sack_permitted: $sp,
+                sack_ranges,
+                timestamp: if $ts { Some(TcpTimestampRepr::new(kani::any(), kani::any())) } else { None },
+                payload: &payload[..],
+            };
+            let v6: bool = kani::any();
+            let (src, dst) = if v6 { (IpAddress::Ipv6(any_v6()), IpAddress::Ipv6(any_v6())) } else { (IpAddress::Ipv4(any_v4()), IpAddress::Ipv4(any_v4())) };
+            assert!(repr.header_len() == H && repr.buffer_len() == N, "prop:c06_parse_of_emit_is_identity");
+            let mut b1 = [0u8; N];
+            let mut b2: [u8; N] = kani::any();
+            repr.emit(&mut TcpPacket::new_unchecked(&mut b1[..]), &src, &dst, &caps());
+            repr.emit(&mut TcpPacket::new_unchecked(&mut b2[..]), &src, &dst, &caps());
+            indep!(b1, b2, N);
+            let p = TcpPacket::new_checked(&b1[..]);
+            assert!(p.is_ok(), "prop:c06_emitted_packet_passes_new_checked");
+            let p = p.unwrap();
+            match TcpRepr::parse(&p, &src, &dst, &caps()) {
+                Ok(back) => {
+                    assert!(back.src_port == repr.src_port && back.dst_port == repr.dst_port, "prop:c06_parse_of_emit_is_identity");
+                    assert!(back.control == repr.control && back.seq_number == repr.seq_number && back.ack_number == repr.ack_number, "prop:c06_parse_of_emit_is_identity");
+                    assert!(back.window_len == repr.window_len && back.window_scale == repr.window_scale, "prop:c06_parse_of_emit_is_identity");
+                    assert!(back.max_seg_size == repr.max_seg_size && back.sack_permitted == repr.sack_permitted, "prop:c06_parse_of_emit_is_identity");
+                    assert!(back.timestamp == repr.timestamp, "prop:c06_parse_of_emit_is_identity");
+                    assert!(back.sack_ranges[0] == repr.sack_ranges[0] && back.sack_ranges[1] == repr.sack_ranges[1] && back.sack_ranges[2] == repr.sack_ranges[2], "prop:c06_parse_of_emit_is_identity");
+                    same_bytes!(back.payload, payload, PL, "prop:c06_parse_of_emit_is_identity");
+                    kani::cover!(back.control == TcpControl::Fin && back.window_len == 0xffff, "FIN segment with the largest window parsed back");
+                }
+                Err(_) => assert!(false, "prop:c06_parse_of_emit_is_identity"),
+            }
+        }};
+    }
+
+    // @harness props=C06 cfg=KW tier=q to=600 mem=4 unwind=12 opts=nomem covers=1 funcs=wire::tcp::Repr::emit;wire::tcp::Repr::parse;wire::tcp::Repr::buffer_len;wire::tcp::Repr::header_len bounds=no_options;_ACK_present_or_absent;_6_payload_bytes
+    #[kani::proof]
+    pub(crate) fn rt_tcp_plain() {
+        tcp_rt!(mss = false, ws = false, sackperm = false, sack = 0, ts = false, pl = 6);
+    }
+
+    // @harness props=C06 cfg=KW tier=q to=900 mem=6 unwind=12 opts=nomem covers=1 funcs=wire::tcp::Repr::emit;wire::tcp::Repr::parse;wire::tcp::TcpOption::emit;wire::tcp::TcpOption::parse bounds=MSS+WS+SACK-permitted+timestamp;_4_payload_bytes
+    #[kani::proof]
+    pub(crate) fn rt_tcp_syn_all() {
+        tcp_rt!(mss = true, ws = true, sackperm = true, sack = 0, ts = true, pl = 4);
+    }
+
+    // @harness props=C06 cfg=KW tier=q to=900 mem=6 unwind=12 opts=nomem covers=1 funcs=wire::tcp::Repr::emit;wire::tcp::Repr::parse;wire::tcp::TcpOption::emit;wire::tcp::TcpOption::parse bounds=3_SACK_blocks+timestamp;_6_payload_bytes
+    #[kani::proof]
+    pub(crate) fn rt_tcp_sack3_ts() {
+        tcp_rt!(mss = false, ws = false, sackperm = false, sack = 3, ts = true, pl = 6);
+    }
+
+    // @harness props=C06 cfg=KW tier=t to=600 mem=4 unwind=12 opts=nomem covers=1 funcs=wire::tcp::Repr::emit;wire::tcp::Repr::parse bounds=MSS_only;_6_payload_bytes
+    #[kani::proof]
+    pub(crate) fn rt_tcp_mss() {
+        tcp_rt!(mss = true, ws = false, sackperm = false, sack = 0, ts = false, pl = 6);
+    }
+
+    // @harness props=C06 cfg=KW tier=t to=600 mem=4 unwind=12 opts=nomem covers=1 funcs=wire::tcp::Repr::emit;wire::tcp::Repr::parse bounds=window_scale_only_(1_padding_byte);_6_payload_bytes
+    #[kani::proof]
+    pub(crate) fn rt_tcp_ws() {
+        tcp_rt!(mss = false, ws = true, sackperm = false, sack = 0, ts = false, pl = 6);
+    }
+
+    // @harness props=C06 cfg=KW tier=t to=600 mem=4 unwind=12 opts=nomem covers=1 funcs=wire::tcp::Repr::emit;wire::tcp::Repr::parse bounds=SACK-permitted_only;_no_payload
+    #[kani::proof]
+    pub(crate) fn rt_tcp_sackperm() {
+        tcp_rt!(mss = false, ws = false, sackperm = true, sack = 0, ts = false, pl = 0);
+    }
+
+    // @harness props=C06 cfg=KW tier=t to=600 mem=4 unwind=12 opts=nomem covers=1 funcs=wire::tcp::Repr::emit;wire::tcp::Repr::parse bounds=timestamp_only;_6_payload_bytes
+    #[kani::proof]
+    pub(crate) fn rt_tcp_ts() {
+        tcp_rt!(mss = false, ws = false, sackperm = false, sack = 0, ts = true, pl = 6);
+    }
+
+    // @harness props=C06 cfg=KW tier=t to=600 mem=4 unwind=12 opts=nomem covers=1 funcs=wire::tcp::Repr::emit;wire::tcp::Repr::parse bounds=MSS+WS+timestamp;_6_payload_bytes
+    #[kani::proof]
+    pub(crate) fn rt_tcp_mss_ws_ts() {
+        tcp_rt!(mss = true, ws = true, sackperm = false, sack = 0, ts = true, pl = 6);
+    }
+
+    // @harness props=C06 cfg=KW tier=t to=600 mem=4 unwind=12 opts=nomem covers=1 funcs=wire::tcp::Repr::emit;wire::tcp::Repr::parse bounds=1_SACK_block;_6_payload_bytes
+    #[kani::proof]
+    pub(crate) fn rt_tcp_sack1() {
+        tcp_rt!(mss = false, ws = false, sackperm = false, sack = 1, ts = false, pl = 6);
+    }
+
+    // @harness props=C06 cfg=KW tier=t to=600 mem=4 unwind=12 opts=nomem covers=1 funcs=wire::tcp::Repr::emit;wire::tcp::Repr::parse bounds=1_SACK_block+timestamp;_6_payload_bytes
+    #[kani::proof]
+    pub(crate) fn rt_tcp_sack1_ts() {
+        tcp_rt!(mss = false, ws = false, sackperm = false, sack = 1, ts = true, pl = 6);
+    }
+
+    // @harness props=C06 cfg=KW tier=t to=600 mem=4 unwind=12 opts=nomem covers=1 funcs=wire::tcp::Repr::emit;wire::tcp::Repr::parse bounds=2_SACK_blocks;_6_payload_bytes
+    #[kani::proof]
+    pub(crate) fn rt_tcp_sack2() {
+        tcp_rt!(mss = false, ws = false, sackperm = false, sack = 2, ts = false, pl = 6);
+    }
+
+    // @harness props=C06 cfg=KW tier=t to=900 mem=6 unwind=12 opts=nomem covers=1 funcs=wire::tcp::Repr::emit;wire::tcp::Repr::parse bounds=3_SACK_blocks;_6_payload_bytes
+    #[kani::proof]
+    pub(crate) fn rt_tcp_sack3() {
+        tcp_rt!(mss = false, ws = false, sackperm = false, sack = 3, ts = false, pl = 6);
+    }
+
+    // @harness props=C06 cfg=KW tier=t to=900 mem=6 unwind=12 opts=nomem covers=1 funcs=wire::tcp::Repr::emit;wire::tcp::Repr::parse bounds=MSS+3_SACK_blocks+timestamp_(all_40_option_bytes);_4_payload_bytes
+    #[kani::proof]
+    pub(crate) fn rt_tcp_mss_sack3_ts() {
+        tcp_rt!(mss = true, ws = false, sackperm = false, sack = 3, ts = true, pl = 4);
+    }
+
+    /// arbitrary segment bytes with a concrete data offset (OPT option bytes) and PL payload bytes
+    macro_rules! tcp_reparse {
+        ($opt:expr, $pl:expr) => {{
+            const N: usize = 20 + $opt + $pl;
+            let mut bytes: [u8; N] = kani::any();
+            bytes[12] = (bytes[12] & 0x0f) | ((((20 + $opt) / 4) as u8) << 4);
+            let src = IpAddress::Ipv4(any_v4());
+            let dst = IpAddress::Ipv4(any_v4());
+            if let Ok(p) = TcpPacket::new_checked(&bytes[..]) {
+                if let Ok(r) = TcpRepr::parse(&p, &src, &dst, &caps()) {
+                    // same proviso as tcp_rt: SACK ranges and SACK-permitted do not occur together, ranges need an ACK
+                    let has_sack = r.sack_ranges[0].is_some();
+                    kani::assume(!has_sack || (r.ack_number.is_some() && !r.sack_permitted));
+                    let n = r.buffer_len();
+                    assert!(n <= N, "prop:c06_reparse_of_parsed_is_identity");
+                    let mut b = [0u8; N];
+                    r.emit(&mut TcpPacket::new_unchecked(&mut b[..n]), &src, &dst, &caps());
+                    match TcpRepr::parse(&TcpPacket::new_unchecked(&b[..n]), &src, &dst, &caps()) {
+                        Ok(back) => {
+                            assert!(back.src_port == r.src_port && back.dst_port == r.dst_port, "prop:c06_reparse_of_parsed_is_identity");
+                            assert!(back.control == r.control && back.seq_number == r.seq_number && back.ack_number == r.ack_number, "prop:c06_reparse_of_parsed_is_identity");
+                            assert!(back.window_len == r.window_len && back.window_scale == r.window_scale, "prop:c06_reparse_of_parsed_is_identity");
+                            assert!(back.max_seg_size == r.max_seg_size && back.sack_permitted == r.sack_permitted, "prop:c06_reparse_of_parsed_is_identity");
+                            assert!(back.timestamp == r.timestamp, "prop:c06_reparse_of_parsed_is_identity");
+                            assert!(back.sack_ranges[0] == r.sack_ranges[0] && back.sack_ranges[1] == r.sack_ranges[1] && back.sack_ranges[2] == r.sack_ranges[2], "prop:c06_reparse_of_parsed_is_identity");
+                            same_bytes!(back.payload, r.payload, $pl, "prop:c06_reparse_of_parsed_is_identity");
+                            kani::cover!(r.max_seg_size.is_some() && r.window_scale == Some(14), "parsed MSS and a clamped window scale");
+                        }
+                        Err(_) => assert!(false, "prop:c06_reparse_of_parsed_is_identity"),
+                    }
+                }
+            }
+        }};
+    }
+
+    // @harness props=C06 cfg=KW tier=q to=900 mem=6 unwind=12 opts=nomem covers=1 funcs=wire::tcp::Repr::parse;wire::tcp::Repr::emit;wire::tcp::TcpOption::parse bounds=arbitrary_32_bytes:_header;_8_option_bytes;_4_payload_bytes
+    #[kani::proof]
+    pub(crate) fn reparse_tcp() {
+        tcp_reparse!(8, 4);
+    }
+
+    // ------------------------------------------------------------------ DHCPv4
+
+    /// fieldwise comparison of a parsed DhcpRepr with the emitted one; additional_options are documented as
+    /// emit-only ("When returned from parse, this field will be None")
+    macro_rules! dhcp_same {
+        ($back:expr, $repr:expr) => {{
+            let (b, r) = (&$back, &$repr);
+            assert!(b.message_type == r.message_type && b.transaction_id == r.transaction_id && b.secs == r.secs, "prop:c06_parse_of_emit_is_identity");
+            assert!(b.client_hardware_address == r.client_hardware_address && b.client_ip == r.client_ip && b.your_ip == r.your_ip, "prop:c06_parse_of_emit_is_identity");
+            assert!(b.server_ip == r.server_ip && b.relay_agent_ip == r.relay_agent_ip && b.broadcast == r.broadcast, "prop:c06_parse_of_emit_is_identity");
+            assert!(b.router == r.router && b.subnet_mask == r.subnet_mask && b.requested_ip == r.requested_ip, "prop:c06_parse_of_emit_is_identity");
+            assert!(b.client_identifier == r.client_identifier && b.server_identifier == r.server_identifier, "prop:c06_parse_of_emit_is_identity");
+            assert!(b.max_size == r.max_size && b.lease_duration == r.lease_duration, "prop:c06_parse_of_emit_is_identity");
+            assert!(b.renew_duration == r.renew_duration && b.rebind_duration == r.rebind_duration, "prop:c06_parse_of_emit_is_identity");
+            assert!(b.parameter_request_list == r.parameter_request_list, "prop:c06_parse_of_emit_is_identity");
+            assert!(b.dns_servers == r.dns_servers, "prop:c06_parse_of_emit_is_identity");
+            assert!(b.additional_options.is_empty(), "prop:c06_parse_of_emit_is_identity");
+        }};
+    }
+
+    macro_rules! dhcp_rt {
+        ($repr:expr, $n:expr, $b:ident => $check:block) => {{
+            let repr: DhcpRepr = $repr;
+            assert!(repr.buffer_len() == $n, "prop:c06_parse_of_emit_is_identity");
+            let mut b1 = [0u8; $n];
+            let mut b2: [u8; $n] = kani::any();
+            let e1 = repr.emit(&mut DhcpPacket::new_unchecked(&mut b1[..]));
+            let e2 = repr.emit(&mut DhcpPacket::new_unchecked(&mut b2[..]));
+            assert!(e1.is_ok() && e2.is_ok(), "prop:c06_emit_succeeds_on_declared_length");
+            indep!(b1, b2, $n);
+            let p = DhcpPacket::new_checked(&b1[..]);
+            assert!(p.is_ok(), "prop:c06_emitted_packet_passes_new_checked");
+            let p = p.unwrap();
+            match DhcpRepr::parse(&p) {
+                Ok(back) => {
+                    dhcp_same!(back, repr);
+                    kani::cover!(back.broadcast && back.secs == 7, "parsed back with broadcast flag");
+                }
+                Err(_) => assert!(false, "prop:c06_parse_of_emit_is_identity"),
+            }
+            let $b = &b1;
+            $check
+        }};
+    }
+
+    fn dhcp_base<'a>() -> DhcpRepr<'a> {
+        DhcpRepr {
+            message_type: DhcpMessageType::from(kani::any::<u8>()),
+            transaction_id: kani::any(),
+            secs: kani::any(),
+            client_hardware_address: any_eth(),
+            client_ip: any_v4(),
+            your_ip: any_v4(),
+            server_ip: any_v4(),
+            router: None,
+            subnet_mask: None,
+            relay_agent_ip: any_v4(),
+            broadcast: kani::any(),
+            requested_ip: None,
+            client_identifier: None,
+            server_identifier: None,
+            parameter_request_list: None,
+            dns_servers: None,
+            max_size: None,
+            lease_duration: None,
+            renew_duration: None,
+            rebind_duration: None,
+            additional_options: &[],
+        }
+    }
+
+    // @harness props=C06 cfg=KW tier=q to=900 mem=6 unwind=132 opts=nomem,fs320 covers=1 funcs=wire::dhcpv4::Repr::emit;wire::dhcpv4::Repr::parse;wire::dhcpv4::Repr::buffer_len;wire::dhcpv4::DhcpOptionWriter::emit bounds=discover-like:_client_id;_max_size;_3-entry_parameter_request_list;_any_message_type
+    #[kani::proof]
+    pub(crate) fn rt_dhcp_discover() {
+        let prl: [u8; 3] = kani::any();
+        let mut repr = dhcp_base();
+        repr.client_identifier = Some(any_eth());
+        repr.max_size = Some(kani::any());
+        repr.parameter_request_list = Some(&prl[..]);
+        dhcp_rt!(repr, 240 + 4 + 9 + 4 + 5, b => {});
+    }
+
+    // @harness props=C06 cfg=KW tier=t to=900 mem=6 unwind=132 opts=nomem,fs320 covers=2 funcs=wire::dhcpv4::Repr::emit;wire::dhcpv4::Repr::parse;wire::dhcpv4::Repr::buffer_len;wire::dhcpv4::DhcpOptionWriter::emit bounds=request-like:_client_id;_requested_ip;_server_id;_max_size;_4-entry_parameter_request_list;_1_additional_option_with_3_data_bytes
+    #[kani::proof]
+    pub(crate) fn rt_dhcp_request() {
+        let prl: [u8; 4] = kani::any();
+        let host: [u8; 3] = kani::any();
+        // additional_options: "should contain only additional DHCP options not known to smoltcp": host name (12)
+        let extra = [DhcpOption { kind: 12, data: &host[..] }];
+        let mut repr = dhcp_base();
+        repr.client_identifier = Some(any_eth());
+        repr.requested_ip = Some(any_v4());
+        repr.server_identifier = Some(any_v4());
+        repr.max_size = Some(kani::any());
+        repr.parameter_request_list = Some(&prl[..]);
+        repr.additional_options = &extra[..];
+        dhcp_rt!(repr, 240 + 4 + 9 + 6 + 6 + 4 + 6 + 5, b => {
+            // the additional option is on the wire: it is the last option before END
+            const E: usize = 240 + 4 + 9 + 6 + 6 + 4 + 6 + 5;
+            kani::cover!(b[E - 6] == 12, "additional option emitted");
+            assert!(b[E - 6] == 12 && b[E - 5] == 3 && b[E - 4] == host[0] && b[E - 2] == host[2] && b[E - 1] == 255, "prop:c06_additional_option_emitted");
+        });
+    }
+
+    // @harness props=C06 cfg=KW tier=q to=900 mem=6 unwind=132 opts=nomem,fs320 covers=1 funcs=wire::dhcpv4::Repr::emit;wire::dhcpv4::Repr::parse;wire::dhcpv4::Repr::buffer_len;wire::dhcpv4::DhcpOptionWriter::emit bounds=ack-like:_server_id;_router;_subnet_mask;_lease_duration;_3_DNS_servers_(the_capacity)
+    #[kani::proof]
+    pub(crate) fn rt_dhcp_ack() {
+        let mut dns = heapless::Vec::new();
+        dns.push(any_v4()).unwrap();
+        dns.push(any_v4()).unwrap();
+        dns.push(any_v4()).unwrap();
+        let mut repr = dhcp_base();
+        repr.server_identifier = Some(any_v4());
+        repr.router = Some(any_v4());
+        repr.subnet_mask = Some(any_v4());
+        repr.lease_duration = Some(kani::any());
+        repr.dns_servers = Some(dns);
+        dhcp_rt!(repr, 240 + 4 + 6 + 6 + 6 + 6 + 14, b => {});
+    }
+
+    // @harness props=C06 cfg=KW tier=t to=900 mem=6 unwind=132 opts=nomem,fs320 covers=1 funcs=wire::dhcpv4::Repr::emit;wire::dhcpv4::Repr::parse;wire::dhcpv4::Repr::buffer_len bounds=no_optional_field
+    #[kani::proof]
+    pub(crate) fn rt_dhcp_minimal() {
+        let repr = dhcp_base();
+        dhcp_rt!(repr, 240 + 4, b => {});
+    }
+
+    // @harness props=C06 cfg=KW tier=t to=900 mem=6 unwind=132 opts=nomem,fs320 covers=1 funcs=wire::dhcpv4::Repr::emit;wire::dhcpv4::Repr::parse;wire::dhcpv4::Repr::buffer_len bounds=empty_DNS_server_list;_empty_parameter_request_list
+    #[kani::proof]
+    pub(crate) fn rt_dhcp_empty_lists() {
+        let mut repr = dhcp_base();
+        repr.dns_servers = Some(heapless::Vec::new());
+        repr.parameter_request_list = Some(&[]);
+        dhcp_rt!(repr, 240 + 4 + 2 + 2, b => {});
+    }
+
+    // T1/T2: parse fills renew_duration / rebind_duration, emit and buffer_len ignore them
+    // @harness props=C06 cfg=KW tier=q kind=finding to=900 mem=6 unwind=132 opts=nomem,fs320 covers=1 funcs=wire::dhcpv4::Repr::emit;wire::dhcpv4::Repr::parse;wire::dhcpv4::Repr::buffer_len bounds=ack-like_with_lease;_renew_and_rebind_durations
+    #[kani::proof]
+    pub(crate) fn finding_dhcp_renew_rebind_lost() {
+        let mut repr = dhcp_base();
+        repr.lease_duration = Some(kani::any());
+        repr.renew_duration = Some(kani::any());
+        repr.rebind_duration = Some(kani::any());
+        let n = repr.buffer_len();
+        let mut b1 = [0u8; 240 + 4 + 6 + 12];
+        kani::assume(n <= 240 + 4 + 6 + 12);
+        let e = repr.emit(&mut DhcpPacket::new_unchecked(&mut b1[..n]));
+        kani::cover!(e.is_ok(), "emitted");
+        let p = DhcpPacket::new_unchecked(&b1[..n]);
+        match DhcpRepr::parse(&p) {
+            Ok(back) => {
+                assert!(back.lease_duration == repr.lease_duration, "prop:c06_parse_of_emit_is_identity");
+                assert!(back.renew_duration == repr.renew_duration && back.rebind_duration == repr.rebind_duration, "prop:c06_parse_of_emit_is_identity");
+            }
+            Err(_) => assert!(false, "prop:c06_parse_of_emit_is_identity"),
+        }
+    }
+
+    // ------------------------------------------------------------------ DNS (DnsRepr is emit-only: the packet view and Question::parse read it back)
+
+    // @harness props=C06 cfg=KW tier=q to=300 mem=4 unwind=12 opts=nomem covers=1 funcs=wire::dns::Repr::emit;wire::dns::Repr::buffer_len;wire::dns::Question::emit;wire::dns::Question::parse bounds=query;_name_of_two_labels_(3_and_2_bytes);_4-bit_opcode;_flags_word_excluded_from_stale_check
+    #[kani::proof]
+    pub(crate) fn rt_dns_query() {
+        let l: [u8; 5] = kani::any();
+        // a well-formed name: length-prefixed labels ending with the root label
+        let name = [3, l[0], l[1], l[2], 2, l[3], l[4], 0];
+        let opcode: u8 = kani::any();
+        // the opcode is a 4-bit field
+        kani::assume(opcode < 16);
+        let repr = DnsRepr {
+            transaction_id: kani::any(),
+            opcode: DnsOpcode::from(opcode),
+            flags: DnsFlags::from_bits_truncate(kani::any()),
+            question: DnsQuestion { name: &name[..], type_: DnsQueryType::from(kani::any::<u16>()) },
+        };
+        assert!(repr.buffer_len() == 24, "prop:c06_parse_of_emit_is_identity");
+        let mut b1 = [0u8; 24];
+        let mut b2: [u8; 24] = kani::any();
+        repr.emit(&mut DnsPacket::new_unchecked(&mut b1[..]));
+        repr.emit(&mut DnsPacket::new_unchecked(&mut b2[..]));
+        // bytes 2..4: finding_dns_flags_word_stale
+        indep!(b1, b2, 24, k => k < 2 || k >= 4);
+        let p = DnsPacket::new_checked(&b1[..]);
+        assert!(p.is_ok(), "prop:c06_emitted_packet_passes_new_checked");
+        let p = p.unwrap();
+        assert!(p.transaction_id() == repr.transaction_id && p.opcode() == repr.opcode && p.flags() == repr.flags, "prop:c06_parse_of_emit_is_identity");
+        assert!(p.question_count() == 1 && p.answer_record_count() == 0 && p.authority_record_count() == 0 && p.additional_record_count() == 0, "prop:c06_parse_of_emit_is_identity");
+        match DnsQuestion::parse(p.payload()) {
+            Ok((rest, q)) => {
+                assert!(rest.is_empty() && q.type_ == repr.question.type_, "prop:c06_parse_of_emit_is_identity");
+                same_bytes!(q.name, name, 8, "prop:c06_parse_of_emit_is_identity");
+                kani::cover!(q.type_ == DnsQueryType::Aaaa, "AAAA question parsed back");
+            }
+            Err(_) => assert!(false, "prop:c06_parse_of_emit_is_identity"),
+        }
+    }
+
+    // set_flags / set_opcode keep the bits they do not own: RCODE, Z and the top opcode bit come from the old buffer
+    // @harness props=C06 cfg=KW tier=q kind=finding to=300 mem=4 unwind=12 opts=nomem covers=1 funcs=wire::dns::Repr::emit bounds=query;_bytes_2..4
+    #[kani::proof]
+    pub(crate) fn finding_dns_flags_word_stale() {
+        let name = [0u8];
+        let opcode: u8 = kani::any();
+        kani::assume(opcode < 16);
+        let repr = DnsRepr {
+            transaction_id: kani::any(),
+            opcode: DnsOpcode::from(opcode),
+            flags: DnsFlags::from_bits_truncate(kani::any()),
+            question: DnsQuestion { name: &name[..], type_: DnsQueryType::A },
+        };
+        let mut b1 = [0u8; 17];
+        let mut b2: [u8; 17] = kani::any();
+        repr.emit(&mut DnsPacket::new_unchecked(&mut b1[..]));
+        repr.emit(&mut DnsPacket::new_unchecked(&mut b2[..]));
+        kani::cover!(true, "emitted");
+        assert!(b1[2] == b2[2] && b1[3] == b2[3], "prop:c06_emit_independent_of_prior_buffer_contents");
+    }
+
+
+    // ------------------------------------------------------------------ IEEE 802.15.4
+    // Repr::emit lays the addressing fields out as: dst PAN id, dst address, [src PAN id unless compressed], src address.
+    // Fixed by the harness (not expressible / not supported by emit): security_enabled = false (the Repr cannot carry the
+    // auxiliary security header the flag announces), a sequence number is present, dst_pan_id is Some.
+    // Frame-control bytes 0..2 are excluded from the stale-buffer check: finding_ieee802154_frame_control_stale.
+
+    const fn ieee_len(dst_ext: bool, src: u8, compressed: bool) -> usize {
+        3 + 2 + (if dst_ext { 8 } else { 2 }) + (if compressed { 0 } else { 2 }) + (match src { 0 => 0, 1 => 2, _ => 8 })
+    }
+
+    /// version: 0 = 2003, 1 = 2006, 2 = 2015 ; src: 0 absent, 1 short, 2 extended
+    macro_rules! ieee802154_rt {
+        (version=$ver:expr, dst_ext=$dext:expr, src=$src:expr, compressed=$comp:expr) => {{
+            const N: usize = ieee_len($dext, $src, $comp);
+            let frame_type = match kani::any::<u8>() {
+                0 => Ieee802154FrameType::Beacon,
+                1 => Ieee802154FrameType::MacCommand,
+                _ => Ieee802154FrameType::Data,
+            };
+            let repr = Ieee802154Repr {
+                frame_type,
+                security_enabled: false,
+                frame_pending: kani::any(),
+                ack_request: kani::any(),
+                sequence_number: Some(kani::any()),
+                pan_id_compression: $comp,
+                frame_version: match $ver {
+                    0 => Ieee802154FrameVersion::Ieee802154_2003,
+                    1 => Ieee802154FrameVersion::Ieee802154_2006,
+                    _ => Ieee802154FrameVersion::Ieee802154,
+                },
+                dst_pan_id: Some(Ieee802154Pan(kani::any())),
+                dst_addr: Some(if $dext { Ieee802154Address::Extended(kani::any()) } else { Ieee802154Address::Short(kani::any()) }),
+                src_pan_id: if $comp { None } else { Some(Ieee802154Pan(kani::any())) },
+                src_addr: Some(match $src {
+                    0 => Ieee802154Address::Absent,
+                    1 => Ieee802154Address::Short(kani::any()),
+                    _ => Ieee802154Address::Extended(kani::any()),
+                }),
+            };
+            assert!(repr.buffer_len() == N, "prop:c06_parse_of_emit_is_identity");
+            let mut b1 = [0u8; N];
+            let mut b2: [u8; N] = kani::any();
+            repr.emit(&mut Ieee802154Frame::new_unchecked(&mut b1[..]));
+            repr.emit(&mut Ieee802154Frame::new_unchecked(&mut b2[..]));
+            indep!(b1, b2, N, k => k >= 2);
+            let f = Ieee802154Frame::new_checked(&b1[..]);
+            assert!(f.is_ok(), "prop:c06_emitted_packet_passes_new_checked");
+            let back = Ieee802154Repr::parse(&f.unwrap());
+            assert!(back == Ok(repr), "prop:c06_parse_of_emit_is_identity");
+            kani::cover!(matches!(back, Ok(Ieee802154Repr { ack_request: true, frame_type: Ieee802154FrameType::Data, .. })), "data frame with ack request parsed back");
+        }};
+    }
+
+    // @harness props=C06 cfg=KW tier=q to=300 mem=4 unwind=12 opts=nomem covers=1 funcs=wire::ieee802154::Repr::emit;wire::ieee802154::Repr::parse;wire::ieee802154::Repr::buffer_len bounds=2003_frame;_extended_dst+src;_PAN_id_compression_(what_Interface_emits)
+    #[kani::proof]
+    pub(crate) fn rt_ieee802154_2003_ext_ext_comp() {
+        ieee802154_rt!(version = 0, dst_ext = true, src = 2, compressed = true);
+    }
+
+    // @harness props=C06 cfg=KW tier=q to=300 mem=4 unwind=12 opts=nomem covers=1 funcs=wire::ieee802154::Repr::emit;wire::ieee802154::Repr::parse;wire::ieee802154::Repr::buffer_len bounds=2006_frame;_extended_dst+src;_both_PAN_ids_(longest_header)
+    #[kani::proof]
+    pub(crate) fn rt_ieee802154_2006_ext_ext_full() {
+        ieee802154_rt!(version = 1, dst_ext = true, src = 2, compressed = false);
+    }
+
+    // @harness props=C06 cfg=KW tier=t to=300 mem=4 unwind=12 opts=nomem covers=1 funcs=wire::ieee802154::Repr::emit;wire::ieee802154::Repr::parse bounds=2003_frame;_short_dst;_extended_src;_PAN_id_compression
+    #[kani::proof]
+    pub(crate) fn rt_ieee802154_2003_short_ext_comp() {
+        ieee802154_rt!(version = 0, dst_ext = false, src = 2, compressed = true);
+    }
+
+    // @harness props=C06 cfg=KW tier=t to=300 mem=4 unwind=12 opts=nomem covers=1 funcs=wire::ieee802154::Repr::emit;wire::ieee802154::Repr::parse bounds=2003_frame;_short_dst+src;_both_PAN_ids
+    #[kani::proof]
+    pub(crate) fn rt_ieee802154_2003_short_short_full() {
+        ieee802154_rt!(version = 0, dst_ext = false, src = 1, compressed = false);
+    }
+
+    // @harness props=C06 cfg=KW tier=t to=300 mem=4 unwind=12 opts=nomem covers=1 funcs=wire::ieee802154::Repr::emit;wire::ieee802154::Repr::parse bounds=2006_frame;_extended_dst;_short_src;_PAN_id_compression
+    #[kani::proof]
+    pub(crate) fn rt_ieee802154_2006_ext_short_comp() {
+        ieee802154_rt!(version = 1, dst_ext = true, src = 1, compressed = true);
+    }
+
+    // @harness props=C06 cfg=KW tier=t to=300 mem=4 unwind=12 opts=nomem covers=1 funcs=wire::ieee802154::Repr::emit;wire::ieee802154::Repr::parse bounds=2003_frame;_extended_dst;_src_absent;_PAN_id_compression_bit_set
+    #[kani::proof]
+    pub(crate) fn rt_ieee802154_2003_ext_absent_comp() {
+        ieee802154_rt!(version = 0, dst_ext = true, src = 0, compressed = true);
+    }
+
+    // @harness props=C06 cfg=KW tier=t to=300 mem=4 unwind=12 opts=nomem covers=1 funcs=wire::ieee802154::Repr::emit;wire::ieee802154::Repr::parse bounds=2015_frame;_short_dst+src;_both_PAN_ids
+    #[kani::proof]
+    pub(crate) fn rt_ieee802154_2015_short_short_full() {
+        ieee802154_rt!(version = 2, dst_ext = false, src = 1, compressed = false);
+    }
+
+    // @harness props=C06 cfg=KW tier=t to=300 mem=4 unwind=12 opts=nomem covers=1 funcs=wire::ieee802154::Repr::emit;wire::ieee802154::Repr::parse bounds=2015_frame;_short_dst;_extended_src;_PAN_id_compression
+    #[kani::proof]
+    pub(crate) fn rt_ieee802154_2015_short_ext_comp() {
+        ieee802154_rt!(version = 2, dst_ext = false, src = 2, compressed = true);
+    }
+
+    // IEEE 802.15.4-2015 table 7-2: extended+extended without compression carries the dst PAN id only, with
+    // compression no PAN id at all; Repr::emit / buffer_len use the 2003 layout for every version
+    // @harness props=C06 cfg=KW tier=t kind=finding to=300 mem=4 unwind=12 opts=nomem covers=1 funcs=wire::ieee802154::Repr::emit;wire::ieee802154::Repr::parse;wire::ieee802154::Repr::buffer_len bounds=2015_frame;_extended_dst+src;_PAN_id_compression
+    #[kani::proof]
+    pub(crate) fn finding_ieee802154_2015_ext_ext_comp() {
+        ieee802154_rt!(version = 2, dst_ext = true, src = 2, compressed = true);
+    }
+
+    // the frame-control setters only OR bits in (set_fc_bit_field) and bits 7..9 are never written
+    // @harness props=C06 cfg=KW tier=q kind=finding to=300 mem=4 unwind=12 opts=nomem covers=1 funcs=wire::ieee802154::Repr::emit bounds=2003_frame;_extended_dst+src;_frame_control_bytes_0..2
+    #[kani::proof]
+    pub(crate) fn finding_ieee802154_frame_control_stale() {
+        let repr = Ieee802154Repr {
+            frame_type: Ieee802154FrameType::Data,
+            security_enabled: false,
+            frame_pending: false,
+            ack_request: kani::any(),
+            sequence_number: Some(kani::any()),
+            pan_id_compression: true,
+            frame_version: Ieee802154FrameVersion::Ieee802154_2003,
+            dst_pan_id: Some(Ieee802154Pan(kani::any())),
+            dst_addr: Some(Ieee802154Address::Extended(kani::any())),
+            src_pan_id: None,
+            src_addr: Some(Ieee802154Address::Extended(kani::any())),
+        };
+        let mut b1 = [0u8; 21];
+        let mut b2: [u8; 21] = kani::any();
+        repr.emit(&mut Ieee802154Frame::new_unchecked(&mut b1[..]));
+        repr.emit(&mut Ieee802154Frame::new_unchecked(&mut b2[..]));
+        kani::cover!(true, "emitted");
+        assert!(b1[0] == b2[0] && b1[1] == b2[1], "prop:c06_emit_independent_of_prior_buffer_contents");
+    }
+
+    // ------------------------------------------------------------------ 6LoWPAN fragment headers
+
+    // @harness props=C06 cfg=KW tier=q to=300 mem=4 unwind=8 opts=nomem covers=2 funcs=wire::sixlowpan::frag::Repr::emit;wire::sixlowpan::frag::Repr::parse;wire::sixlowpan::frag::Repr::buffer_len bounds=FRAG1_and_FRAGN;_11-bit_datagram_size
+    #[kani::proof]
+    pub(crate) fn rt_sixlowpan_frag() {
+        let size: u16 = kani::any();
+        // the datagram size is an 11-bit field
+        kani::assume(size < (1 << 11));
+        let first: bool = kani::any();
+        let repr = if first { SixlowpanFragRepr::FirstFragment { size, tag: kani::any() } } else { SixlowpanFragRepr::Fragment { size, tag: kani::any(), offset: kani::any() } };
+        let n = repr.buffer_len();
+        let mut b1 = [0u8; 5];
+        let mut b2: [u8; 5] = kani::any();
+        repr.emit(&mut SixlowpanFragPacket::new_unchecked(&mut b1[..n]));
+        repr.emit(&mut SixlowpanFragPacket::new_unchecked(&mut b2[..n]));
+        indep!(b1, b2, n);
+        let p = SixlowpanFragPacket::new_checked(&b1[..n]);
+        assert!(p.is_ok(), "prop:c06_emitted_packet_passes_new_checked");
+        let back = SixlowpanFragRepr::parse(&p.unwrap());
+        assert!(back == Ok(repr), "prop:c06_parse_of_emit_is_identity");
+        kani::cover!(matches!(back, Ok(SixlowpanFragRepr::FirstFragment { size: 2047, .. })), "first fragment of the largest datagram");
+        kani::cover!(matches!(back, Ok(SixlowpanFragRepr::Fragment { offset: 255, .. })), "fragment at the largest offset");
+    }
+
+    // ------------------------------------------------------------------ 6LoWPAN NHC extension header
+
+    fn any_ext_header_id() -> SixlowpanExtHeaderId {
+        match kani::any::<u8>() {
+            0 => SixlowpanExtHeaderId::HopByHopHeader,
+            1 => SixlowpanExtHeaderId::RoutingHeader,
+            2 => SixlowpanExtHeaderId::FragmentHeader,
+            3 => SixlowpanExtHeaderId::DestinationOptionsHeader,
+            4 => SixlowpanExtHeaderId::MobilityHeader,
+            5 => SixlowpanExtHeaderId::Reserved,
+            _ => SixlowpanExtHeaderId::Header,
+        }
+    }
+
+    // @harness props=C06 cfg=KW tier=q to=300 mem=4 unwind=8 opts=nomem covers=1 funcs=wire::sixlowpan::nhc::ExtHeaderRepr::emit;wire::sixlowpan::nhc::ExtHeaderRepr::parse;wire::sixlowpan::nhc::ExtHeaderRepr::buffer_len bounds=every_header_id;_next_header_inline
+    #[kani::proof]
+    pub(crate) fn rt_sixlowpan_ext_header_inline() {
+        let repr = SixlowpanExtHeaderRepr { ext_header_id: any_ext_header_id(), next_header: SixlowpanNextHeader::Uncompressed(any_proto()), length: kani::any() };
+        assert!(repr.buffer_len() == 3, "prop:c06_parse_of_emit_is_identity");
+        let mut b1 = [0u8; 3];
+        let mut b2: [u8; 3] = kani::any();
+        repr.emit(&mut SixlowpanExtHeaderPacket::new_unchecked(&mut b1[..]));
+        repr.emit(&mut SixlowpanExtHeaderPacket::new_unchecked(&mut b2[..]));
+        indep!(b1, b2, 3);
+        let p = SixlowpanExtHeaderPacket::new_checked(&b1[..]);
+        assert!(p.is_ok(), "prop:c06_emitted_packet_passes_new_checked");
+        let back = SixlowpanExtHeaderRepr::parse(&p.unwrap());
+        assert!(back == Ok(repr), "prop:c06_parse_of_emit_is_identity");
+        kani::cover!(matches!(back, Ok(SixlowpanExtHeaderRepr { ext_header_id: SixlowpanExtHeaderId::Header, .. })), "IPv6-header id parsed back");
+    }
+
+    // @harness props=C06 cfg=KW tier=t to=300 mem=4 unwind=8 opts=nomem covers=1 funcs=wire::sixlowpan::nhc::ExtHeaderRepr::emit;wire::sixlowpan::nhc::ExtHeaderRepr::parse bounds=every_header_id;_next_header_compressed
+    #[kani::proof]
+    pub(crate) fn rt_sixlowpan_ext_header_compressed() {
+        let repr = SixlowpanExtHeaderRepr { ext_header_id: any_ext_header_id(), next_header: SixlowpanNextHeader::Compressed, length: kani::any() };
+        assert!(repr.buffer_len() == 2, "prop:c06_parse_of_emit_is_identity");
+        let mut b1 = [0u8; 2];
+        let mut b2: [u8; 2] = kani::any();
+        repr.emit(&mut SixlowpanExtHeaderPacket::new_unchecked(&mut b1[..]));
+        repr.emit(&mut SixlowpanExtHeaderPacket::new_unchecked(&mut b2[..]));
+        indep!(b1, b2, 2);
+        let p = SixlowpanExtHeaderPacket::new_checked(&b1[..]);
+        assert!(p.is_ok(), "prop:c06_emitted_packet_passes_new_checked");
+        let back = SixlowpanExtHeaderRepr::parse(&p.unwrap());
+        assert!(back == Ok(repr), "prop:c06_parse_of_emit_is_identity");
+        kani::cover!(matches!(back, Ok(SixlowpanExtHeaderRepr { ext_header_id: SixlowpanExtHeaderId::RoutingHeader, length: 30, .. })), "routing header of 30 bytes");
+    }
+
+    // ------------------------------------------------------------------ 6LoWPAN UDP NHC
+    // With tx checksums off (ignored(), as everywhere in C06) emit writes neither the C bit (bit 2 of byte 0) nor the
+    // two checksum bytes: they are excluded here and asserted in finding_sixlowpan_udp_nhc_checksum_stale.
+
+    /// class 0: no port compressible; 1: src in 0xf0xx; 2: dst in 0xf0xx (src not); 3: both in 0xf0bx
+    macro_rules! udp_nhc_rt {
+        ($class:expr, $hlen:expr) => {{
+            const H: usize = $hlen;
+            const N: usize = H + 4;
+            let payload: [u8; 4] = kani::any();
+            let sp: u16 = kani::any();
+            let dp: u16 = kani::any();
+            match $class {
+                0 => kani::assume(sp & 0xff00 != 0xf000 && dp & 0xff00 != 0xf000),
+                1 => kani::assume(sp & 0xff00 == 0xf000 && !(sp & 0xfff0 == 0xf0b0 && dp & 0xfff0 == 0xf0b0)),
+                2 => kani::assume(sp & 0xff00 != 0xf000 && dp & 0xff00 == 0xf000),
+                _ => kani::assume(sp & 0xfff0 == 0xf0b0 && dp & 0xfff0 == 0xf0b0),
+            }
+            let repr = SixlowpanUdpNhcRepr(UdpRepr { src_port: sp, dst_port: dp });
+            let (src, dst) = (any_v6(), any_v6());
+            assert!(repr.header_len() == H, "prop:c06_parse_of_emit_is_identity");
+            let mut b1 = [0u8; N];
+            let mut b2: [u8; N] = kani::any();
+            repr.emit(&mut SixlowpanUdpNhcPacket::new_unchecked(&mut b1[..]), &src, &dst, 4, |buf| buf.copy_from_slice(&payload[..]), &caps());
+            repr.emit(&mut SixlowpanUdpNhcPacket::new_unchecked(&mut b2[..]), &src, &dst, 4, |buf| buf.copy_from_slice(&payload[..]), &caps());
+            indep!(b1, b2, N, k => k >= 1 && (k < H - 2 || k >= H));
+            assert!(b1[0] & !0x04 == b2[0] & !0x04, "prop:c06_emit_independent_of_prior_buffer_contents");
+            let p = SixlowpanUdpNhcPacket::new_checked(&b1[..]);
+            assert!(p.is_ok(), "prop:c06_emitted_packet_passes_new_checked");
+            let p = p.unwrap();
+            let back = SixlowpanUdpNhcRepr::parse(&p, &src, &dst, &caps());
+            kani::cover!(back.is_ok(), "parsed");
+            assert!(back == Ok(repr), "prop:c06_parse_of_emit_is_identity");
+            same_bytes!(p.payload(), payload, 4, "prop:c06_parse_of_emit_is_identity");
+        }};
+    }
+
+    // @harness props=C06 cfg=KW tier=q to=300 mem=4 unwind=20 opts=nomem covers=1 funcs=wire::sixlowpan::nhc::UdpNhcRepr::emit;wire::sixlowpan::nhc::UdpNhcRepr::parse;wire::sixlowpan::nhc::UdpNhcRepr::header_len bounds=both_ports_inline;_4_payload_bytes
+    #[kani::proof]
+    pub(crate) fn rt_sixlowpan_udp_nhc_inline() {
+        udp_nhc_rt!(0, 7);
+    }
+
+    // @harness props=C06 cfg=KW tier=q to=300 mem=4 unwind=20 opts=nomem covers=1 funcs=wire::sixlowpan::nhc::UdpNhcRepr::emit;wire::sixlowpan::nhc::UdpNhcRepr::parse;wire::sixlowpan::nhc::UdpNhcRepr::header_len bounds=source_port_in_0xf0xx_(8_bits_inline);_4_payload_bytes
+    #[kani::proof]
+    pub(crate) fn rt_sixlowpan_udp_nhc_src_f0() {
+        udp_nhc_rt!(1, 6);
+    }
+
+    // destination port in 0xf0xx, source not: UdpNhcPacket::dst_port reads the first port byte instead of the third
+    // @harness props=C06 cfg=KW tier=q kind=finding to=300 mem=4 unwind=20 opts=nomem covers=1 funcs=wire::sixlowpan::nhc::UdpNhcRepr::emit;wire::sixlowpan::nhc::UdpNhcRepr::parse;wire::sixlowpan::nhc::UdpNhcPacket::dst_port bounds=destination_port_in_0xf0xx;_4_payload_bytes
+    #[kani::proof]
+    pub(crate) fn finding_sixlowpan_udp_nhc_dst_f0() {
+        udp_nhc_rt!(2, 6);
+    }
+
+    // both ports in 0xf0bx: set_ports combines the nibbles with `&` instead of `|`, dst_port masks with 0xff instead of 0x0f
+    // @harness props=C06 cfg=KW tier=q kind=finding to=300 mem=4 unwind=20 opts=nomem covers=1 funcs=wire::sixlowpan::nhc::UdpNhcRepr::emit;wire::sixlowpan::nhc::UdpNhcRepr::parse;wire::sixlowpan::nhc::UdpNhcPacket::set_ports;wire::sixlowpan::nhc::UdpNhcPacket::dst_port bounds=both_ports_in_0xf0bx;_4_payload_bytes
+    #[kani::proof]
+    pub(crate) fn finding_sixlowpan_udp_nhc_both_f0b() {
+        udp_nhc_rt!(3, 4);
+    }
+
+    // tx checksum off: the C ("checksum elided") bit and the checksum bytes keep the old buffer contents, so a stale
+    // C bit makes the receiver take the first two payload bytes for... nothing: it shifts the payload by two bytes
+    // @harness props=C06 cfg=KW tier=q kind=finding to=300 mem=4 unwind=20 opts=nomem covers=1 funcs=wire::sixlowpan::nhc::UdpNhcRepr::emit bounds=both_ports_inline;_byte_0_and_the_checksum_bytes
+    #[kani::proof]
+    pub(crate) fn finding_sixlowpan_udp_nhc_checksum_stale() {
+        let payload: [u8; 4] = kani::any();
+        let repr = SixlowpanUdpNhcRepr(UdpRepr { src_port: 1000, dst_port: 2000 });
+        let (src, dst) = (any_v6(), any_v6());
+        let mut b1 = [0u8; 11];
+        let mut b2: [u8; 11] = kani::any();
+        repr.emit(&mut SixlowpanUdpNhcPacket::new_unchecked(&mut b1[..]), &src, &dst, 4, |buf| buf.copy_from_slice(&payload[..]), &caps());
+        repr.emit(&mut SixlowpanUdpNhcPacket::new_unchecked(&mut b2[..]), &src, &dst, 4, |buf| buf.copy_from_slice(&payload[..]), &caps());
+        kani::cover!(true, "emitted");
+        assert!(b1[0] == b2[0], "prop:c06_emit_independent_of_prior_buffer_contents");
+        assert!(b1[5] == b2[5] && b1[6] == b2[6], "prop:c06_emit_independent_of_prior_buffer_contents");
+    }
+
+    // ------------------------------------------------------------------ 6LoWPAN IPHC
+    // Traffic class / flow label: emit always elides them ("FIXME: we don't set anything from the traffic flow"),
+    // so ecn/dscp/flow_label are None, which is also what Interface builds.
+
+    /// IPv6 address of a concrete shape with symbolic content.
+    /// 0 unspecified; 1 fe80::ff:fe00:XXXX (ll = Short(XXXX)); 2 same IID, no link-layer address; 3 fe80::EUI-64 of ll = Extended;
+    /// 4 fe80::<8 symbolic bytes>, no ll; 5 global 20XX:..; 6 ff02::00XX; 7 ffXX::00XX:XXXX; 8 ffXX::00XX:XXXX:XXXX; 9 ffXX:<14 symbolic bytes>
+    macro_rules! iphc_addr {
+        ($kind:expr) => {{
+            let r: [u8; 16] = kani::any();
+            let e: [u8; 8] = kani::any();
+            let (a, ll): ([u8; 16], Option<Ieee802154Address>) = match $kind {
+                0 => ([0; 16], None),
+                1 => ([0xfe, 0x80, 0, 0, 0, 0, 0, 0, 0, 0, 0, 0xff, 0xfe, 0, r[14], r[15]], Some(Ieee802154Address::Short([r[14], r[15]]))),
+                2 => ([0xfe, 0x80, 0, 0, 0, 0, 0, 0, 0, 0, 0, 0xff, 0xfe, 0, r[14], r[15]], None),
+                3 => ([0xfe, 0x80, 0, 0, 0, 0, 0, 0, e[0] ^ 2, e[1], e[2], e[3], e[4], e[5], e[6], e[7]], Some(Ieee802154Address::Extended(e))),
+                4 => ([0xfe, 0x80, 0, 0, 0, 0, 0, 0, r[8], r[9], r[10], 0x11, r[12], r[13], r[14], r[15]], None),
+                5 => ([0x20, r[1], r[2], r[3], r[4], r[5], r[6], r[7], r[8], r[9], r[10], r[11], r[12], r[13], r[14], r[15]], None),
+                6 => ([0xff, 0x02, 0, 0, 0, 0, 0, 0, 0, 0, 0, 0, 0, 0, 0, r[15]], None),
+                7 => ([0xff, r[1], 0, 0, 0, 0, 0, 0, 0, 0, 0, 0, 0, 0x80 | r[13], r[14], r[15]], None),
+                8 => ([0xff, r[1], 0, 0, 0, 0, 0, 0, 0, 0, 0, 0x80 | r[11], r[12], r[13], r[14], r[15]], None),
+                _ => ([0xff, r[1], 0x80 | r[2], r[3], r[4], r[5], r[6], r[7], r[8], r[9], r[10], r[11], r[12], r[13], r[14], r[15]], None),
+            };
+            (Ipv6Address::from_octets(a), ll)
+        }};
+    }
+
+    macro_rules! iphc_rt {
+        (src=$sk:expr, dst=$dk:expr, nh_inline=$nhi:expr, hl_inline=$hli:expr, n=$n:expr) => {{
+            const N: usize = $n;
+            let (src_addr, ll_src_addr) = iphc_addr!($sk);
+            let (dst_addr, ll_dst_addr) = iphc_addr!($dk);
+            let hop_limit: u8 = kani::any();
+            if $hli {
+                kani::assume(hop_limit != 1 && hop_limit != 64 && hop_limit != 255);
+            } else {
+                kani::assume(hop_limit == 1 || hop_limit == 64 || hop_limit == 255);
+            }
+            let repr = SixlowpanIphcRepr {
+                src_addr,
+                ll_src_addr,
+                dst_addr,
+                ll_dst_addr,
+                next_header: if $nhi { SixlowpanNextHeader::Uncompressed(any_proto()) } else { SixlowpanNextHeader::Compressed },
+                hop_limit,
+                ecn: None,
+                dscp: None,
+                flow_label: None,
+            };
+            assert!(repr.buffer_len() == N, "prop:c06_parse_of_emit_is_identity");
+            let mut b1 = [0u8; N];
+            let mut b2: [u8; N] = kani::any();
+            repr.emit(&mut SixlowpanIphcPacket::new_unchecked(&mut b1[..]));
+            repr.emit(&mut SixlowpanIphcPacket::new_unchecked(&mut b2[..]));
+            indep!(b1, b2, N);
+            let p = SixlowpanIphcPacket::new_checked(&b1[..]);
+            assert!(p.is_ok(), "prop:c06_emitted_packet_passes_new_checked");
+            let p = p.unwrap();
+            assert!(p.header_len() == N, "prop:c06_parse_of_emit_is_identity");
+            let back = SixlowpanIphcRepr::parse(&p, ll_src_addr, ll_dst_addr, &[]);
+            kani::cover!(back.is_ok(), "parsed");
+            assert!(back == Ok(repr), "prop:c06_parse_of_emit_is_identity");
+        }};
+    }
+
+    // @harness props=C06 cfg=KW tier=q to=300 mem=4 unwind=20 opts=nomem covers=1 funcs=wire::sixlowpan::iphc::Repr::emit;wire::sixlowpan::iphc::Repr::parse;wire::sixlowpan::iphc::Repr::buffer_len bounds=src_link-local_elided_from_extended_lladdr;_dst_ff02::XX;_next_header_compressed;_hop_limit_1|64|255
+    #[kani::proof]
+    pub(crate) fn rt_iphc_eui64_mcast8() {
+        iphc_rt!(src = 3, dst = 6, nh_inline = false, hl_inline = false, n = 3);
+    }
+
+    // @harness props=C06 cfg=KW tier=q to=300 mem=4 unwind=20 opts=nomem covers=1 funcs=wire::sixlowpan::iphc::Repr::emit;wire::sixlowpan::iphc::Repr::parse;wire::sixlowpan::iphc::Repr::buffer_len bounds=global_src_and_dst_(both_inline);_next_header_and_hop_limit_inline_(longest_header)
+    #[kani::proof]
+    pub(crate) fn rt_iphc_global_global() {
+        iphc_rt!(src = 5, dst = 5, nh_inline = true, hl_inline = true, n = 36);
+    }
+
+    // @harness props=C06 cfg=KW tier=t to=300 mem=4 unwind=20 opts=nomem covers=1 funcs=wire::sixlowpan::iphc::Repr::emit;wire::sixlowpan::iphc::Repr::parse bounds=unspecified_src;_dst_ffXX::XX:XXXX_(32_bits_inline);_next_header_inline
+    #[kani::proof]
+    pub(crate) fn rt_iphc_unspec_mcast32() {
+        iphc_rt!(src = 0, dst = 7, nh_inline = true, hl_inline = false, n = 7);
+    }
+
+    // @harness props=C06 cfg=KW tier=t to=300 mem=4 unwind=20 opts=nomem covers=1 funcs=wire::sixlowpan::iphc::Repr::emit;wire::sixlowpan::iphc::Repr::parse bounds=src_and_dst_link-local_elided_from_short_lladdr;_hop_limit_inline
+    #[kani::proof]
+    pub(crate) fn rt_iphc_short_short() {
+        iphc_rt!(src = 1, dst = 1, nh_inline = false, hl_inline = true, n = 3);
+    }
+
+    // @harness props=C06 cfg=KW tier=t to=300 mem=4 unwind=20 opts=nomem covers=1 funcs=wire::sixlowpan::iphc::Repr::emit;wire::sixlowpan::iphc::Repr::parse bounds=src_and_dst_link-local_with_16_bits_inline
+    #[kani::proof]
+    pub(crate) fn rt_iphc_ll16_ll16() {
+        iphc_rt!(src = 2, dst = 2, nh_inline = false, hl_inline = false, n = 6);
+    }
+
+    // @harness props=C06 cfg=KW tier=t to=300 mem=4 unwind=20 opts=nomem covers=1 funcs=wire::sixlowpan::iphc::Repr::emit;wire::sixlowpan::iphc::Repr::parse bounds=src_link-local_with_64_bits_inline;_dst_link-local_elided_from_extended_lladdr
+    #[kani::proof]
+    pub(crate) fn rt_iphc_ll64_eui64() {
+        iphc_rt!(src = 4, dst = 3, nh_inline = true, hl_inline = false, n = 11);
+    }
+
+    // @harness props=C06 cfg=KW tier=t to=300 mem=4 unwind=20 opts=nomem covers=1 funcs=wire::sixlowpan::iphc::Repr::emit;wire::sixlowpan::iphc::Repr::parse bounds=global_src;_dst_link-local_with_64_bits_inline
+    #[kani::proof]
+    pub(crate) fn rt_iphc_global_ll64() {
+        iphc_rt!(src = 5, dst = 4, nh_inline = false, hl_inline = false, n = 26);
+    }
+
+    // @harness props=C06 cfg=KW tier=t to=300 mem=4 unwind=20 opts=nomem covers=1 funcs=wire::sixlowpan::iphc::Repr::emit;wire::sixlowpan::iphc::Repr::parse bounds=global_src;_dst_ffXX::XX:XXXX:XXXX_(48_bits_inline)
+    #[kani::proof]
+    pub(crate) fn rt_iphc_global_mcast48() {
+        iphc_rt!(src = 5, dst = 8, nh_inline = false, hl_inline = false, n = 24);
+    }
+
+    // a multicast destination that fits none of the compressed forms is written in full (16 bytes) but flagged DAM=0b11
+    // (8-bit form), so the receiver reads one byte: set_dst_address, last multicast branch
+    // @harness props=C06 cfg=KW tier=q kind=finding to=300 mem=4 unwind=20 opts=nomem covers=1 funcs=wire::sixlowpan::iphc::Repr::emit;wire::sixlowpan::iphc::Repr::parse;wire::sixlowpan::iphc::Repr::buffer_len bounds=link-local_src_elided;_dst_any_multicast_address_with_a_non-zero_third_byte
+    #[kani::proof]
+    pub(crate) fn finding_iphc_multicast_full() {
+        iphc_rt!(src = 3, dst = 9, nh_inline = false, hl_inline = false, n = 18);
     }
 
     // <<END>>
